@@ -12,1542 +12,1656 @@ Definition show_fres (r : fres) : string :=
   end.
 Definition check (rs : list rune) : string := digest (show_fres (format_res rs)).
 Definition full (rs : list rune) : string := show_fres (format_res rs).
-Eval vm_compute in ("<<<M4234>>>" ++ check (runes_of_ascii "
-MetaData
-
-string_	{} packet
-	Packet 
-	// c
-		// c
-  { 
-  // @lengthOf(
-      zchar[
-	65535 ] metadata ,
-}
-	MetaData
-    body
-{	u
-
-    packetx ,
-char[]roots
-	`" ++ [233]%N ++ runes_of_ascii "`
-,
-
-i32 
-Header
-, 
-uint32 packetx  /// triple
-  , 
-} 
-packet Foo {
-@rightPad (  ) match
-
-crc as
-u128
-    { // c
-
-""it's"" :
-    As
-    ,0 
-:
-x_y_z  , """"
-
-    :
-	msg_type
-}  // @lengthOf(
-    ,	match pack
-
-    as x_y_z{
-255  :
-	msg_type
-    ,},
-i8
-
-A	,	int8
-
-    BodyLength@lengthOf(	tag)	,@calculatedFrom(
-""CRC32""
+Eval vm_compute in ("<<<M4435>>>" ++ check (runes_of_ascii "  // " ++ [27880; 37322]%N ++ runes_of_ascii "
+  packet A
+    {@calculatedFrom(  ""a	b""
 ) 
-match
+u128	@lengthOf(
+asx 	 /// triple
 
-    int
+)
 
-as Header	{ 4294967296 :x_y_z , 
-  // @lengthOf(
-	}, match chars
+`doc`  , 	 // `tick` ""quote"" 'q'
 
-as // a // b
-      calculatedFrom {
-[
-0
+charz 
+@lengthOf(
+
+    repeatCount),
+
+    i8
+	metadata @lengthOf( body )
+	`{ , }`
 
     ,
 
-    0 
-,// c
-1,  0123456789 ,
-00// c
-  , 
-""a\""b""
+@tag(
+	    // `tick` ""quote"" 'q'
+0123456789 )repeat x_y_z
+    lengthOf
+, 
+@calculatedFrom(
+    ""{,}"" 
+)options1
+{
+match
 
-,// `tick` ""quote"" 'q'
-4294967296
+metadata
 
-] :  stringy ,
-""`tick`""
+    as
 
-    :
+chars
+{""// no comment""
+	:matchKey 
+, }
 
-    T}
+    ,}
 
-,@tag(
-    0 )
+, Z9_ 
+
+    // trailing space 
+// @lengthOf(
+
+``
+, repeat  i64_
+    `` , @tag(	42	)
+    uint8  chars  @calculatedFrom( 
+""abc""
+) ,  } MetaData
+	charz
+
+    {  char[]
+
+    Packet
+
+    ,i64
+    string_
+
+`{ , }`
+
+,	// " ++ [128512]%N ++ runes_of_ascii " emoji
+    	int64 a1 `tab	here` ,
+
+}
+	packet
+
+matchKey//	t
+    {
+repeat  x
+	{string
+	// c
+    Logon `doc`
+
+,
+}
+,
+repeat 
+u32  // trailing space 
+  chars
+,
+
+    @calculatedFrom( // c
+	""`tick`""
+) o
+	falsey
+
+`say ""hi""`, 
+zchar[
+007
+    ] string_ @lengthOf(Header
+
+    )`line1
+line2`
+        // trailing space 
+	, match x as
+
+    uint8x {  1  //
+  : 
+a1
+
+    ,
+
+    [  ""a	b""
+
+    ,  42 ,
+	65535 ]	:
+
+T 
+, """ ++ [28040; 24687]%N ++ runes_of_ascii """
+: metadata 
+
+    // packet A { u8 x, }
+    // c
+
+  , },
+match 
+Z9_
+as msg_type	// a // b
+      {
+65535://	t
+u ,[
+    // " ++ [128512]%N ++ runes_of_ascii " emoji
+// c
+	7
+
+    ,7 	 // trailing space 
+	, 42	, """ ++ [28040; 24687]%N ++ runes_of_ascii """
+	]	: asx
+
+    ,
+	""" ++ [233]%N ++ runes_of_ascii "t" ++ [233]%N ++ runes_of_ascii """	:
+_x ,	[  
+      // `tick` ""quote"" 'q'
+
+// " ++ [27880; 37322]%N ++ runes_of_ascii "
+255
+
+]:
+	metadata ,
+}  // `tick` ""quote"" 'q'
+  	,
+float32 len,
+
+repeat	len , @tag(
+
+    007)	repeat
+	f64  pack
+
+// trailing space 
+		,}
+
+packet stringy
+
+    {
+    // trailing space 
+	  // packet A { u8 x, }
+	  @lengthOf(	As 
+) 
+@calculatedFrom( ""\" ++ [233]%N ++ runes_of_ascii """ )
+
 @tag(
 
-    1  )
-
-    @lengthOf(u8x
-)  u8x
-    { body  , 
-repeat 	 // trailing space 
-  calculatedFrom 
-x_y_z	`two words`, }
-, match
-    falsey
-    as
-	leftPad{007
-:A
-,[ """ ++ [28040; 24687]%N ++ runes_of_ascii """	]	:tag	,
-
-    1
-: 
-        //
-Pad  ,
-    } ,// c
-	  float64  repeatCount  ,
-    @tag(
-    10 )match	stringy
-
-as	Logon{ 7 : Pad
-	,},	}  packet Packet {	@calculatedFrom( 
-""\n""
-	)
-@calculatedFrom(
-""`tick`"" ) matchKey  , @lengthOf(  zchar) roots
-
-    {	repeat i16
-Z9_ 
-,match  repeatCount
-as	stringy
-	{[""x y""
-]:
-packetx ,	[""" ++ [128512]%N ++ runes_of_ascii """
-
-, 
-""x y""  ,
-	""\n"" ]:
-crc	,
-    }
-,} 
-        // `tick` ""quote"" 'q'
-	//x
-  , // packet A { u8 x, }
-	match // trailing space 
-    tag
-	as
-
-    a1 // " ++ [128512]%N ++ runes_of_ascii " emoji
-    {
-	""abc""
-	:packetx
-
-    1:
-	u8x	1
-    : body 
-007
-
-    :
-leftPad 0123456789	:	Header
-} ,  i16
-
-    x_y_z 
-, @calculatedFrom(
-""{,}""
+7
 
     )
+u8  x_y_z 
+@lengthOf(
+pack)
 
+    `crlf
+line` 
+,
+
+uint8
+	chars`doc`,	@calculatedFrom(""CRC32""	)
+
+@leftPad('0'
+)  
+      // @lengthOf(
+  @lengthOf(
+leftPad)
+match
+packetx 
+
+    // @lengthOf(
+  // " ++ [128512]%N ++ runes_of_ascii " emoji
+    as
+float
+    {[ ""// no comment""
+    , 007 ] :
+	msg_type,	//	t
+    1  // packet A { u8 x, }
+  : rootA	, 7  :
+	lengthOf// " ++ [128512]%N ++ runes_of_ascii " emoji
+, [ // a // b
+  """ ++ [128512]%N ++ runes_of_ascii """
+
+] : x
+,[ //
+    42
+	,// `tick` ""quote"" 'q'
+		65535
+	] :	// " ++ [27880; 37322]%N ++ runes_of_ascii "
+	falsey 
+,  // " ++ [27880; 37322]%N ++ runes_of_ascii "
+	  }
+	    //	t
+    	// packet A { u8 x, }
+,
+char[1
+	] lengthOf
+    @lengthOf( metadata
+	)
+,u8 crc
+@calculatedFrom(  """ ++ [128512]%N ++ runes_of_ascii """) 
+`say ""hi""`
+, 
+}
+")).
+Eval vm_compute in ("<<<M3856>>>" ++ check (runes_of_ascii "
+root  packet
+	Foo 
+{
+
+chars 
+{
+
+falsey 
+body  , zchar[ 
+3 
+]repeatCount 
+`{ , }`
+,
+
+    } ,@lengthOf(
+    BodyLength ) i8  //	t
+
+Z9_	@lengthOf(  trueish
+),  // " ++ [128512]%N ++ runes_of_ascii " emoji
+  @rightPad	(
+
+    ) repeat
+Pad
+    { _x
+
+@calculatedFrom(	// `tick` ""quote"" 'q'
+      ""\" ++ [233]%N ++ runes_of_ascii """ 
+)	,
+
+    match 
+msg_type as 	 // @lengthOf(
+    uint8x
+	{[	1 ,
+
+    ""\n""
+	, 0 ,
+""\n""
+]
+    :
+
+Packet
+
+""CRC32"": pack
+,  }	, 
+}
+
+    ,
+
+    @calculatedFrom(  ""a\""b"" )  repeat
+	body
+    { 
+char[007 
+] i64_ // `tick` ""quote"" 'q'
+		`
+` 
+,	match  charz as  pack {
+	65535
+:
+
+    u8x
+	65535 :
+    zchar
+
+    ,
+[
+	255 
+] // trailing space 
+  	:chars 
+	    // `tick` ""quote"" 'q'
+    // " ++ [128512]%N ++ runes_of_ascii " emoji
+      , 1  : stringy
+,
+
+[ """ ++ [28040; 24687]%N ++ runes_of_ascii """
+]
+	: 
+int	,0:  // " ++ [128512]%N ++ runes_of_ascii " emoji
+asx
+    ,	} // " ++ [27880; 37322]%N ++ runes_of_ascii "
+,
+    }
+    ,
+    match	// c
 o
+
+    as
+// " ++ [128512]%N ++ runes_of_ascii " emoji
+
+// `tick` ""quote"" 'q'
+A{007 
+: 
+calculatedFrom
+,
+
+    ""abc"":roots 
+    // packet A { u8 x, }
+// packet A { u8 x, }
+,	""`tick`""
+
+:	Foo	,  ""it's"": Foo , 007
+:  
+  //	t
+// packet A { u8 x, }
+      float ,
+    } ,
+@leftPad 
+( ' ' 
+    // trailing space 
+  	// `tick` ""quote"" 'q'
+  )
+        // `tick` ""quote"" 'q'
+  // trailing space 
+	repeat
+
+    repeatCount
+,
+
+    char[007
+]u128
+// `tick` ""quote"" 'q'
+// packet A { u8 x, }
+
+`crlf
+line`
+,} 	 //
+
+packet 
+asx{
+charz{ rootA
+    //	t
+// trailing space 
+    @calculatedFrom(	""" ++ [233]%N ++ runes_of_ascii "t" ++ [233]%N ++ runes_of_ascii """
+) ,
+
+    }
+, }
+
+packet 
+msg_type	{  } 
+MetaData
+o {	f32
+msg_type
+    ,int64  body ,
+	}  root	packet body{@tag( 1
+    ) @calculatedFrom(
+	""`tick`""	) 
+@tag(
+
+0123456789 )metadata
+
+{
+    pack  i64_	,
+
+    } 
+,
+repeat
+    zchar[
+7 
+
+// trailing space 
+] asx
+,
+    chars@calculatedFrom( ""\n"")
+	,	repeat zchar[
+4294967296
+
+    ]
+x
+, @rightPad	( 
+'\x00'
+)
+
+u8
+	msg_type
+	`" ++ [233]%N ++ runes_of_ascii "`
+,float64 pack  @lengthOf(
+
+    MetaDataX
+
+) ,}
+")).
+Eval vm_compute in ("<<<M1387>>>" ++ check (runes_of_ascii "
+MetaData x { string_ x
+    `tab	here`,}
+packet
+u { @tag(
+1 ) match x
+as
+    Z9_
+{
+""a\""b"" : asx
+    } , // " ++ [128512]%N ++ runes_of_ascii " emoji
+leftPad @calculatedFrom(
+    ""it's"" ) `" ++ [28040; 24687; 31867; 22411]%N ++ runes_of_ascii "` ,//	t
+@tag(10 ) Packet ,
+u64
+//x
+// a // b
+stringy @calculatedFrom( ""1"" )  `doc`
+    , char[ 3 ]// " ++ [128512]%N ++ runes_of_ascii " emoji
+x_y_z @lengthOf( lengthOf
+)	`" ++ [28040; 24687; 31867; 22411]%N ++ runes_of_ascii "` , } root packet Pad
+{ int8
+Header @calculatedFrom(
+""1""  ) `u8 x,` ,
+@calculatedFrom(
+    """ ++ [128512]%N ++ runes_of_ascii """// packet A { u8 x, }
+) int64 BodyLength
+`u8 x,`
+, @leftPad
+    ( ' '
+    // a // b
+    )
+char[]
+float ,@lengthOf(//x
+repeatCount ) char[] repeatCount, } packet falsey
+//
+// `tick` ""quote"" 'q'
+{@calculatedFrom( """ ++ [28040; 24687]%N ++ runes_of_ascii """) @rightPad ( )@leftPad // c
+( '\x00' )	zchar[3]
+i8i8 `tab	here`
+,
+    }
+//x
+// packet A { u8 x, }
+packet
+zchar
+    { Header
+@calculatedFrom(
+    ""a\\"" ) , // a // b
+msg_type``
+,  @calculatedFrom( """ ++ [28040; 24687]%N ++ runes_of_ascii """)  Logon
+    zchar	,i32 u128 @calculatedFrom(""packet"")
+// packet A { u8 x, }
+/// triple
+,
+// `tick` ""quote"" 'q'
+// c
+u8 _x
+    `
+` ,
+@leftPad ( '0'
+) uint16 asx `a\` ,@calculatedFrom( ""\n"" )
+@calculatedFrom( ""a	b""	)
+    float64
+    leftPad @lengthOf(
+    // c
+    repeatCount
+/// triple
+//
+) `it's` , match metadata
+as
+options1 { [  42, 1	]// `tick` ""quote"" 'q'
+: BodyLength""`tick`""
+    :_x ,
+    65535
+: asx, 65535
+    : BodyLength ""a\\"" :
+    //
+    string_ } ,match
+/// triple
+//
+uint8x as
+chars
+{ 10 :/// triple
+Logon
+""// no comment"": float , /// triple
+[ ""packet""	,  7
+] :MetaDataX
+    10
+:asx
+    , """ ++ [28040; 24687]%N ++ runes_of_ascii """ :
+i64_ ,} ,  }")).
+Eval vm_compute in ("<<<M4526>>>" ++ check (runes_of_ascii "
+packet roots
+
+    {
+
+@lengthOf(
+
+    a1
+
+) 
+    //x
+	uint32 stringy
 
 `it's`
-    , string_	@calculatedFrom( ""it's"" )
-	`crlf
-line` ,	match
-	i8i8	as  lengthOf
-{	[  1
-, 
-""a\\""
-    ,42 , 
-""""
-    ,
-""a\\""  ] 
-    // " ++ [128512]%N ++ runes_of_ascii " emoji
-  	:o
-,	10
-    :
-Foo	//x
 
-[7 ] 
-: // trailing space 
-  lengthOf,	}	, repeat
-A
-{ 
-repeat T
-
-    { char[ 
-007
+,@tag( 
+0)	string a1 
+//	t
 //x
-  ]
-i64_	@lengthOf(
-	Packet
-
-    // a // b
-	  ) ,match
-T 
+	  ,
+	match 
+len
 as
-    repeatCount  // " ++ [27880; 37322]%N ++ runes_of_ascii "
-    	{ 
-""x y""
-
-: As
-    , 
-}
-    ,repeat
-metadata	,
-
-msg_type { 
-float64  //
-
-float , i8 
-o
-`u8 x,` 	 // " ++ [27880; 37322]%N ++ runes_of_ascii "
-  ,
-
-    char[0 ]
-
-A@calculatedFrom(
-""1"" ) `two words`//	t
-,  i8
-body
-
-    @lengthOf(Packet )
-,} , //
-		}
-	, rootA
-    {
-
-    f32a
-@lengthOf(
-    pack
-	)  ,  } 
-,	repeat
-
-    char[]
-u	,
-    },
-	}
-")).
-Eval vm_compute in ("<<<M3521>>>" ++ check (runes_of_ascii "// top
-options // c0
-{ // c1
-LittleEndian // c2a
-  // c2b
-=
-    // c3
-false // c4
-; StringPrefixLenType // c6a
-  // c6b
-=
-    // c7
-u16 // c8
-; ArrayPrefixLenType
-    // c10
-=
-    // c11
-u64
-    // c12
-; // c13
-FixedStringPadFromLeft // c14a
-  // c14b
-= // c15
-true ; // c17
-FixedStringPadChar // c18
-= ' ' ; // c21a
-  // c21b
-} // c22
-packet
-    // c23
-Logon
-    // c24
-{
-    // c25
-u16 // c26a
-  // c26b
-Tail // c27
-, // c28
-repeat // c29a
-  // c29b
-string // c30a
-  // c30b
-x , // c32a
-  // c32b
-i16 count // c34a
-  // c34b
-, @leftPad ( // c37a
-  // c37b
-'0'
-    // c38
-) // c39
-char[
-    // c40
-3
-    // c41
-] // c42
-Note // c43a
-  // c43b
-, // c44a
-  // c44b
-} // c45
-packet Fill // c47
-{ } // c49
-packet Heartbeat // c51a
-  // c51b
-{ // c52
-} packet
-    // c54
-Reject
-    // c55
-{ string msgKind // c58
-, // c59a
-  // c59b
-repeat
-    // c60
-Logon
-    // c61
-, InFlags25 {
-    // c64
-repeat InPrice29 // c66
-{ u8 price // c69a
-  // c69b
-, // c70
-Logon // c71
-, // c72
-repeat // c73
-char[ // c74
-1 ] // c76a
-  // c76b
-Note // c77
-, // c78
-} // c79a
-  // c79b
-, char[]
-    // c81
-x , // c83
-Fill
-    // c84
-, } // c86a
-  // c86b
-,
-    // c87
-repeat Heartbeat
-    // c89
-,
-    // c90
-} root // c92a
-  // c92b
-packet // c93
-Order // c94a
-  // c94b
-{ // c95a
-  // c95b
-InNote88
-    // c96
-{ repeat
-    // c98
-i32 Acct
-    // c100
-, // c101a
-  // c101b
-repeat
-    // c102
-i16 // c103a
-  // c103b
-clOrdID // c104
-, repeat // c106a
-  // c106b
-Logon
-    // c107
-, } , u16 tag7 , // c113a
-  // c113b
-match
-    // c114
-tag7 as
-    // c116
-Body // c117
-{ [
-    // c119
-14 , // c121
-22
-    // c122
-] // c123
-: Logon // c125
-, 55 // c127
-: // c128a
-  // c128b
-Heartbeat // c129
-, // c130
-93 // c131
-: // c132
-Reject // c133
-, 13
-    // c135
-: Fill // c137a
-  // c137b
-, } // c139a
-  // c139b
-, // c140
-} // c141a
-  // c141b
-")).
-Eval vm_compute in ("<<<M121>>>" ++ check (runes_of_ascii "packet body{ Z9_ {
-    string leftPad `crlf
-line` , msg_type { // c
-uint64 tag  `{ , }` ,repeat f64 BodyLength
-,} , i8i8 BodyLength , }
-    // " ++ [128512]%N ++ runes_of_ascii " emoji
-    , falsey //
-,@leftPad ( // c
-'0') @lengthOf(
-    falsey	)
-    f32 Z9_
-@lengthOf(  o )
-    , @calculatedFrom(
-""" ++ [233]%N ++ runes_of_ascii "t" ++ [233]%N ++ runes_of_ascii """ )
-repeat string //x
-As
-,@lengthOf(falsey) @calculatedFrom( ""a	b"")
-    @tag( 3
-) repeat Header{
-Packet@lengthOf(
-    crc )
-    , repeat int16
-As
-, repeat uint16 // packet A { u8 x, }
-f32a , } , @lengthOf(float )@tag(
-    3 )
-    // a // b
-    @tag(// " ++ [128512]%N ++ runes_of_ascii " emoji
-10 )	roots
-BodyLength , string tag //	t
-,
-} MetaData int {  char[ 1 ] As
-, Packet u128 , // c
-pack
-    x_y_z
-`{ , }` ,
-    string_
-len ,
-zchar[
-0
-] Header , string
-    zchar `
-`, } root packet uint8x { char[] u128
-, }root packet crc { repeat trueish { f32 lengthOf `say ""hi""` , i8 crc	@calculatedFrom( """ ++ [233]%N ++ runes_of_ascii "t" ++ [233]%N ++ runes_of_ascii """) , match Z9_ as repeatCount
-    {
-    [ 3 ] :  string_
-, ""it's""  : A 0 :	u8x 65535 : u128  } , // trailing space 
-i32 x , },char[]
-    pack `// not a comment` , char[]leftPad @calculatedFrom("""" ) `
-` ,
-string o `doc` ,}
-    packet// " ++ [27880; 37322]%N ++ runes_of_ascii "
-rootA  { // " ++ [128512]%N ++ runes_of_ascii " emoji
-repeat x_y_z{
-    zchar[
-//	t
-//	t
-3 ]
-    stringy
-`crlf
-line`,  BodyLength
-    BodyLength
-    `` , lengthOf
-@calculatedFrom(
-""x y""
-) , // c
-float64
-    // " ++ [27880; 37322]%N ++ runes_of_ascii "
-    Logon	@calculatedFrom(
-""a\\"" ) ,
-} , @lengthOf( Pad
-)// `tick` ""quote"" 'q'
-@calculatedFrom( ""abc"") @tag(4294967296 )uint8x @lengthOf( // packet A { u8 x, }
-crc )  ,
-@calculatedFrom( //	t
-""" ++ [233]%N ++ runes_of_ascii "t" ++ [233]%N ++ runes_of_ascii """  )
-string u
-@lengthOf(
-uint8x)
-    `// not a comment` ,u
-    metadata`u8 x,`
-,
-    }
-")).
-Eval vm_compute in ("<<<M3968>>>" ++ check (runes_of_ascii "packet
-	As {}
-	MetaData
-	// " ++ [128512]%N ++ runes_of_ascii " emoji
-    	BodyLength
-
-{ uint32
-	Z9_
-    `// not a comment`
-    , }packet
-
-f32a 
-//x
-  {
-f64  T @lengthOf(	As
-)  `u8 x,`  , 
-repeat
-	i16	i64_ `" ++ [28040; 24687; 31867; 22411]%N ++ runes_of_ascii "`
-
-    ,
-    char[ 
-007 ]  falsey
-
-@lengthOf(Pad
-)
-
-    ,repeat
-	leftPad
-{ u64
-    u8x	,
-
-    char[]tag	,	}// " ++ [128512]%N ++ runes_of_ascii " emoji
-    ,
-    match
-    As
-    as	len
-{
-
-    ""1"":
-
-    x_y_z ,255 :
-// c
-	len , 
-007: 
-charz  ,[
-""abc""
-, 42 , 10	, 
-""" ++ [28040; 24687]%N ++ runes_of_ascii """
-
-    ,
-    ""it's""
-    , //	t
-  3
-    ] : // " ++ [27880; 37322]%N ++ runes_of_ascii "
-	  matchKey  //	t
-
-,// `tick` ""quote"" 'q'
-
-  }
-, // @lengthOf(
-	}  packet BodyLength
-	{
-
-@calculatedFrom( ""// no comment"" )
-@lengthOf(
-Logon) @tag( 42 
-)
-    //
-	// " ++ [128512]%N ++ runes_of_ascii " emoji
-repeat
-
-    rootA	metadata , 
-@tag(4294967296 )
-
-repeat	matchKey// @lengthOf(
-  {
-
-int8 
-pack
-    ,
-	}, @tag(	65535
-
-    ) 
-@rightPad(
-)	//
-  @lengthOf(// " ++ [27880; 37322]%N ++ runes_of_ascii "
-	Pad
-    ) uint8x `{ , }`
-	, match
-
-Foo	as As
-{
-
-    10
-: 
-uint8x ,
-    0
-: 
-rootA// " ++ [128512]%N ++ runes_of_ascii " emoji
-	,
-    007 :	matchKey	,	[
-
-    ""x y""
-
-    ]
+zchar	{ 
+        // @lengthOf(
+		42
 
 :
-    u8x
+    lengthOf,	""" ++ [233]%N ++ runes_of_ascii "t" ++ [233]%N ++ runes_of_ascii """
+	:
+	len
+	""""
+    : Z9_,} , @calculatedFrom(
 
-    ,
-
-}  ,	float64 
-i64_
-
-@calculatedFrom(
-
-    ""// no comment""	// `tick` ""quote"" 'q'
-    )  , match  trueish
-
-    as
-matchKey {
-// trailing space 
-	// trailing space 
-
-""" ++ [233]%N ++ runes_of_ascii "t" ++ [233]%N ++ runes_of_ascii """
-:  // trailing space 
-
-_x, },chars
-    @lengthOf(	Packet
-
-    )
-`crlf
-line` 
-,  char[]
-x
-,} MetaData 
-falsey //
-    {Z9_
-
-    options1 
-``
-, 
-}
-")).
-Eval vm_compute in ("<<<M577>>>" ++ check (runes_of_ascii "
-packet	matchKey
-// @lengthOf(
-// " ++ [128512]%N ++ runes_of_ascii " emoji
-{ string stringy `tab	here`,} root packet
-Z9_{@lengthOf( /// triple
-o ) @calculatedFrom( """ ++ [128512]%N ++ runes_of_ascii """ )@lengthOf( matchKey // packet A { u8 x, }
-)
-u{ string
-    //	t
-    msg_type
-    , pack{ uint64 As@lengthOf(
-u128 ), // `tick` ""quote"" 'q'
-repeat i64_ `crlf
-line`
-    , }
-, } ,
-@lengthOf(
-    len ) match rootA as
-stringy	{
-[
-    65535
-    ,
-65535 ,	""`tick`""
-    , ""a\""b"" ,65535
-,
-// `tick` ""quote"" 'q'
-// a // b
-""abc"",  10] //x
-:options1
-, ""1"" :
-a1
-    // trailing space 
-    , 255	: As
-, """"
-:
-metadata ,4294967296: // @lengthOf(
-body
-, } ,  repeat // " ++ [27880; 37322]%N ++ runes_of_ascii "
-u8x , @lengthOf( asx )@tag( 10 )@calculatedFrom( ""\n"" )match Logon as options1 { ""CRC32"":
-    // c
-    charz ,[
-""\n"" ,
-10 ,  65535 , """ ++ [233]%N ++ runes_of_ascii "t" ++ [233]%N ++ runes_of_ascii """] :
-    As // " ++ [128512]%N ++ runes_of_ascii " emoji
-,// packet A { u8 x, }
-[ 4294967296 ] :repeatCount
-    , },
-    @tag(
-007 ) @leftPad ('0' ) @leftPad(' ')i16 u128 @calculatedFrom( ""packet"" )
-    ,  @leftPad
-(// " ++ [27880; 37322]%N ++ runes_of_ascii "
-)x @calculatedFrom(""\n""
-    )
-`a\` ,
-repeat zchar{ zchar[ 007]Foo
-    ,
-}
-,@tag( // `tick` ""quote"" 'q'
-42 ) match
-    chars as metadata { [""{,}"" ] : calculatedFrom ,0 :
-    x
-, 4294967296 :leftPad
-    , [//	t
-42 ] :	trueish// packet A { u8 x, }
-}, } options{  }")).
-Eval vm_compute in ("<<<M4225>>>" ++ check (runes_of_ascii "// `tick` ""quote"" 'q'
-packet
-Logon {	@lengthOf( 	 //
-	Logon
-    )repeat
-f64 // " ++ [27880; 37322]%N ++ runes_of_ascii "
-
-MetaDataX
-
-, char[
-    0
-    ] 
-	    // `tick` ""quote"" 'q'
-	options1
-
-,  
-      // " ++ [27880; 37322]%N ++ runes_of_ascii "
-
-  repeat
-    Foo
-
-    `a\`
-
-,  // `tick` ""quote"" 'q'
-  @lengthOf( Header
-
-    )
-u16	u128 //x
-@calculatedFrom(  // `tick` ""quote"" 'q'
-	""\" ++ [233]%N ++ runes_of_ascii """
-)	//	t
-  ,@lengthOf(
-	len ) Header // trailing space 
-    {MetaDataX
-@calculatedFrom(	""a\""b"" 
-) ,i32
-    rootA@calculatedFrom(
-
-    ""a\""b""	//
-  	)`" ++ [28040; 24687; 31867; 22411]%N ++ runes_of_ascii "` ,match A	as
-
-    packetx{
-
-    [
-
-0123456789
-    ]
-
-    : 
-rootA ,
-} ,	} 
-,
-
-    } options
-{  Foo=  // c
-  	""CRC32""/// triple
-      ; } 
-MetaData
-MetaDataX
-{
-
-}
-
-    packet	lengthOf{ 	 // packet A { u8 x, }
-  repeat 
-char[3] Pad  ,@calculatedFrom(
-    """ ++ [28040; 24687]%N ++ runes_of_ascii """ )
-int16
-roots@lengthOf(Logon
-) , MetaDataX{	//x
-  char[]  asx @lengthOf( calculatedFrom  //x
-  	) // " ++ [128512]%N ++ runes_of_ascii " emoji
-
-  ,
-string 
-	    //
-A @lengthOf(/// triple
-
-Logon ) ,
-
-char[]pack
-,
-}
-    /// triple
-	, repeat  options1
-	u
-
-    ,  @tag(1
-
-    )
-	repeat  // c
-pack trueish, repeat
-	string  repeatCount
-
-    ,
-@calculatedFrom( 
-""" ++ [28040; 24687]%N ++ runes_of_ascii """)f32
-float
-@calculatedFrom( 
 ""{,}""
 
-    ),}
+)	// " ++ [128512]%N ++ runes_of_ascii " emoji
+    	@tag( 42	)rootA@lengthOf( 
+repeatCount
+    ) `" ++ [233]%N ++ runes_of_ascii "` // `tick` ""quote"" 'q'
+
+,	BodyLength 
+{ 
+f64 tag
+    `u8 x,`
+    ,
+	//
+}  ,zchar[255
+    ]  f32a
+`
+`
+	,
+    @lengthOf(
+rootA 
+) a1,
+
+@calculatedFrom(
+""" ++ [28040; 24687]%N ++ runes_of_ascii """
+	)
+repeat
+u32 As
+
+`doc`,
+	}packet o {	repeat uint8 A
+
+,
+
+} 
+MetaData
+	u128 {
+int64 	 //	t
+      x_y_z	`doc` 
+,
+
+}options { asx// @lengthOf(
+      = 65535
+	;
+
+metadata//
+    = u32 ; pack=
+zchar[ 0123456789]}  root
+packet 
+lengthOf	{
+@leftPad 
+(
+'0'	) 
+@calculatedFrom(
+// " ++ [27880; 37322]%N ++ runes_of_ascii "
+  //x
+
+  ""it's""
+	)  int 
+@calculatedFrom(
+	""`tick`""
+)
+
+, i32 len, @leftPad
+	(
+	'\x00'
+
+    )  repeat char[]
+
+    falsey	,
+@tag(
+255
+) 
+i32
+lengthOf
+@lengthOf( MetaDataX) 
+, match
+int  as
+A
+{ 10
+:
+body
+
+,
+
+    ""abc"":
+    a1 , }
+
+    ,
+    metadata`a\`
+    ,
+    int32
+uint8x
+
+@lengthOf(
+
+repeatCount  ) 
+,
+	@leftPad
+	(
+
+)	crc 
+body
+,  repeat  T
+
+{
+    // " ++ [128512]%N ++ runes_of_ascii " emoji
+float64  x
+, char[] tag 
+
+// trailing space 
+
+  `say ""hi""`	, 
+repeat
+Header
+	{ char[]
+string_ 
+`say ""hi""`  ,Z9_
+,  }
+    ,// " ++ [128512]%N ++ runes_of_ascii " emoji
+  } 
+	    //x
+,
+    }
 
 ")).
-Eval vm_compute in ("<<<M1141>>>" ++ check (runes_of_ascii "// @lengthOf(
-packet
-// @lengthOf(
-//
-chars { repeat leftPad {
-i64_, /// triple
-}  , BodyLength{ //	t
-char[ 1] _x
-    `line1
-line2`
-    , }
-    ,@calculatedFrom( """ ++ [233]%N ++ runes_of_ascii "t" ++ [233]%N ++ runes_of_ascii """
-) repeat
-    zchar body , char[ 65535	] Foo ,repeat
-    zchar[ 7	] repeatCount , @lengthOf( Logon
-)@calculatedFrom(	""{,}""
-/// triple
-// `tick` ""quote"" 'q'
-)//
-string//x
-float,
-u8x,
-    uint8x
-@calculatedFrom( ""packet"") , } //x
-MetaData T { u16 zchar // " ++ [128512]%N ++ runes_of_ascii " emoji
-`tab	here`
-,float64 x
-,// packet A { u8 x, }
-i32 Packet `` , // `tick` ""quote"" 'q'
-zchar[
-255
-//
-/// triple
-] crc
-    // a // b
-    , calculatedFrom
-u128 ,
-zchar[ 1
-/// triple
-// a // b
-]
-metadata `
-`
+Eval vm_compute in ("<<<M3505>>>" ++ check (runes_of_ascii "packet Frame
+    // c1
+{ // c2a
+  // c2b
+u8 HK // c4a
+  // c4b
+, // c5
+u8
+    // c6
+BK // c7a
+  // c7b
+, // c8a
+  // c8b
+u8 TK // c10a
+  // c10b
 ,
-} packet uint8x	{
-Header{uint16  metadata @lengthOf(
-MetaDataX
-    ) `line1
-line2` , } //x
+    // c11
+match HK as // c14a
+  // c14b
+Hdr { // c16a
+  // c16b
+1 // c17a
+  // c17b
+: // c18a
+  // c18b
+HdrA
+    // c19
+, // c20a
+  // c20b
+2 // c21
+:
+    // c22
+HdrB // c23a
+  // c23b
 ,
-// " ++ [27880; 37322]%N ++ runes_of_ascii "
-// @lengthOf(
-metadata  repeatCount , repeat x_y_z , chars
-A
-, packetx@calculatedFrom(
-    // a // b
-    ""a\\""	) `` ,
-    char[ 007] a1 @lengthOf( A  ) `" ++ [28040; 24687; 31867; 22411]%N ++ runes_of_ascii "`, /// triple
-} options {
-    matchKey = float32 ;	}
-packet
-    f32a
-{ @lengthOf( repeatCount )// @lengthOf(
-@tag( 42 )// `tick` ""quote"" 'q'
-float32 u128 ,  }
+    // c24
+} ,
+    // c26
+match BK
+    // c28
+as Body // c30
+{ // c31
+1 // c32a
+  // c32b
+:
+    // c33
+BodyA // c34
+, // c35a
+  // c35b
+2 : BodyB // c38
+, // c39a
+  // c39b
+} // c40
+, match // c42
+TK as
+    // c44
+Trl // c45a
+  // c45b
+{ 1 // c47a
+  // c47b
+:
+    // c48
+TrlA
+    // c49
+, }
+    // c51
+,
+    // c52
+} // c53
+packet HdrA // c55a
+  // c55b
+{ // c56
+u8 // c57
+a // c58
+, // c59a
+  // c59b
+}
+    // c60
+packet // c61a
+  // c61b
+HdrB { // c63
+u16 b ,
+    // c66
+}
+    // c67
+packet BodyA
+    // c69
+{ u32
+    // c71
+c // c72
+,
+    // c73
+}
+    // c74
+packet // c75a
+  // c75b
+BodyB { // c77
+u64 // c78a
+  // c78b
+d , } // c81a
+  // c81b
+packet // c82
+TrlA { // c84
+u8 // c85a
+  // c85b
+e
+    // c86
+, // c87a
+  // c87b
+} root
+    // c89
+packet // c90
+Msg // c91
+{ // c92a
+  // c92b
+Frame , u8 // c95
+x
+    // c96
+, // c97a
+  // c97b
+} // c98
 ")).
-Eval vm_compute in ("<<<M3536>>>" ++ check (runes_of_ascii "// top
-options // c0a
-  // c0b
+Eval vm_compute in ("<<<M4211>>>" ++ check (runes_of_ascii "packet chars {
+    i8 Z9_,
+    match zchar as Logon {
+        00 : i8i8,
+        [
+            ""// no comment"", 42, 10, ""it's"", 4294967296,
+            ""`tick`"", ""x y"", ""a\""b""
+        ] : leftPad,
+        [""\" ++ [233]%N ++ runes_of_ascii """] : A,
+        [""abc"", ""1""] : zchar,
+        3 : x,
+        3 : x_y_z,
+    },
+    uint8x @calculatedFrom(""{,}""),
+}// `tick` ""quote"" 'q'
+
+packet calculatedFrom {
+    int32 T,
+    @lengthOf(float)
+    f32a len,
+    @calculatedFrom(""" ++ [233]%N ++ runes_of_ascii "t" ++ [233]%N ++ runes_of_ascii """)
+    int32 f32a @lengthOf(matchKey) `" ++ [233]%N ++ runes_of_ascii "`,
+    charz @calculatedFrom(""x y""),
+}
+
+root packet stringy {
+    @lengthOf(Logon)
+    int64 len @calculatedFrom(""CRC32""),
+    T @calculatedFrom(""1"") `line1
+    line2`,
+    @tag(255)
+    @tag(7)
+    @tag(007)
+    repeat packetx len,
+    @tag(1)
+    repeat zchar[0] float,//
+    @lengthOf(lengthOf)
+    repeat x_y_z {
+        char[10] u `
+        `,
+        MetaDataX a1 `u8 x,`,
+    },
+    @tag(1)
+    string repeatCount `" ++ [28040; 24687; 31867; 22411]%N ++ runes_of_ascii "`,
+    int8 int @calculatedFrom(""// no comment""),
+}
+
+packet asx {
+    @leftPad('\x00')
+    char[00] u8x @calculatedFrom(""" ++ [233]%N ++ runes_of_ascii "t" ++ [233]%N ++ runes_of_ascii """),
+    zchar[007] asx @calculatedFrom(""" ++ [128512]%N ++ runes_of_ascii """),
+    repeat MetaDataX metadata `
+    `,
+}")).
+Eval vm_compute in ("<<<M3545>>>" ++ check (runes_of_ascii "// top
+options
+    // c0
 { // c1
 LittleEndian
     // c2
-= false
-    // c4
-; StringPrefixLenType = u8
+= // c3
+false ; StringPrefixLenType // c6a
+  // c6b
+=
+    // c7
+u8
     // c8
-; // c9
+; // c9a
+  // c9b
 ArrayPrefixLenType = // c11
-u16 // c12a
-  // c12b
-; FixedStringPadFromLeft
-    // c14
-= // c15
+u16 ;
+    // c13
+FixedStringPadFromLeft = // c15a
+  // c15b
 false // c16a
   // c16b
-; } // c18a
-  // c18b
-packet // c19
-Heartbeat { // c21
-u8 seqNo // c23a
+; // c17a
+  // c17b
+} // c18
+packet // c19a
+  // c19b
+Heartbeat { // c21a
+  // c21b
+u8
+    // c22
+seqNo // c23a
   // c23b
 , // c24a
   // c24b
-@rightPad // c25a
-  // c25b
-( '\x00' )
-    // c28
-char[
+@rightPad ( '\x00' // c27
+) char[
     // c29
 8 // c30a
   // c30b
-] // c31a
-  // c31b
-x , } // c34
-root // c35a
-  // c35b
-packet // c36
-Trade // c37
-{ repeat // c39a
-  // c39b
-Heartbeat
-    // c40
-, float32 // c42
+] // c31
+x
+    // c32
+, // c33
+} // c34
+root // c35
+packet Trade // c37
+{
+    // c38
+repeat // c39
+Heartbeat // c40
+, float32
+    // c42
 OrderId // c43a
   // c43b
 , // c44
-i64 // c45a
-  // c45b
-Acct , // c47
-u16 // c48
+i64
+    // c45
+Acct , // c47a
+  // c47b
+u16
+    // c48
 Qty // c49a
   // c49b
-,
-    // c50
-u16 clOrdID // c52a
-  // c52b
-,
-    // c53
-match clOrdID // c55a
-  // c55b
-as // c56
-Body {
+, // c50
+u16 // c51a
+  // c51b
+clOrdID
+    // c52
+, // c53a
+  // c53b
+match clOrdID // c55
+as // c56a
+  // c56b
+Body
+    // c57
+{
     // c58
-131
-    // c59
-: // c60a
-  // c60b
-Heartbeat , } // c63
-,
+131 // c59a
+  // c59b
+: Heartbeat , // c62a
+  // c62b
+} ,
     // c64
 u16 // c65a
   // c65b
-sym
-    // c66
-@calculatedFrom(
-    // c67
-""CRC32"" ) // c69a
+sym // c66
+@calculatedFrom( // c67a
+  // c67b
+""CRC32"" // c68
+) // c69a
   // c69b
 ,
     // c70
-}
-    // c71
-")).
-Eval vm_compute in ("<<<M4171>>>" ++ check (runes_of_ascii "// @lengthOf(
-packet chars {
-    repeat leftPad {
-        i64_,/// triple
-    },
-    BodyLength {
-        //	t
-        char[1] _x `line1
-        line2`,
-    },
-    @calculatedFrom(""" ++ [233]%N ++ runes_of_ascii "t" ++ [233]%N ++ runes_of_ascii """)
-    repeat zchar body,
-    char[65535] Foo,
-    repeat zchar[7] repeatCount,
-    @lengthOf(Logon)
-    @calculatedFrom(""{,}"")
-    //
-    string float,
-    u8x,
-    uint8x @calculatedFrom(""packet""),
-}//x
-
-MetaData T {
-    u16 zchar `tab	here`,
-    float64 x,
-    i32 Packet ``,
-    zchar[255] crc,
-    calculatedFrom u128,
-    zchar[1] metadata `
-    `,
-}
-
-packet uint8x {
-    Header {
-        uint16 metadata @lengthOf(MetaDataX) `line1
-        line2`,
-    },
-    // " ++ [27880; 37322]%N ++ runes_of_ascii "
-    // @lengthOf(
-    metadata repeatCount,
-    repeat x_y_z,
-    chars A,
-    packetx @calculatedFrom(""a\\"") ``,
-    char[007] a1 @lengthOf(A) `" ++ [28040; 24687; 31867; 22411]%N ++ runes_of_ascii "`,/// triple
-}
-
-options {
-    matchKey = float32;
-}
-
-packet f32a {
-    @lengthOf(repeatCount)
-    @tag(42)
-    // `tick` ""quote"" 'q'
-    float32 u128,
-}")).
-Eval vm_compute in ("<<<M4433>>>" ++ check (runes_of_ascii "// `tick` ""quote"" 'q'
-packet Logon {
-    @lengthOf(Logon)
-    repeat f64 MetaDataX,
-    char[0] options1,
-    // " ++ [27880; 37322]%N ++ runes_of_ascii "
-    repeat Foo `a\`,// `tick` ""quote"" 'q'
-    @lengthOf(Header)
-    u16 u128 @calculatedFrom(""\" ++ [233]%N ++ runes_of_ascii """),
-    @lengthOf(len)
-    Header {
-        MetaDataX @calculatedFrom(""a\""b""),
-        i32 rootA @calculatedFrom(""a\""b"") `" ++ [28040; 24687; 31867; 22411]%N ++ runes_of_ascii "`,
-        match A as packetx {
-            [0123456789] : rootA,
-        },
-    },
-}
-
-options {
-    Foo = ""CRC32"";
-}
-
-MetaData MetaDataX {
-}
-
-packet lengthOf {
-    // packet A { u8 x, }
-    repeat char[3] Pad,
-    @calculatedFrom(""" ++ [28040; 24687]%N ++ runes_of_ascii """)
-    int16 roots @lengthOf(Logon),
-    MetaDataX {
-        //x
-        char[] asx @lengthOf(calculatedFrom),
-        string A @lengthOf(Logon),
-        char[] pack,
-    },
-    repeat options1 u,
-    @tag(1)
-    repeat pack trueish,
-    repeat string repeatCount,
-    @calculatedFrom(""" ++ [28040; 24687]%N ++ runes_of_ascii """)
-    f32 float @calculatedFrom(""{,}""),
-}")).
-Eval vm_compute in ("<<<M1245>>>" ++ check (runes_of_ascii "MetaData As {
-    roots repeatCount	, char // `tick` ""quote"" 'q'
-trueish , zchar[
-255	]  u128  `crlf
-line` , char[]  int,asx u128
-    `say ""hi""`,	i32
-    packetx
-,}
-options {A
-    = false;packetx =char[0 ]	A
-    =
-true
-crc = // " ++ [128512]%N ++ runes_of_ascii " emoji
-1 ;
-calculatedFrom  = // @lengthOf(
-""" ++ [233]%N ++ runes_of_ascii "t" ++ [233]%N ++ runes_of_ascii """} MetaData i8i8 { }
-    packet len {
-    @tag(00 )// packet A { u8 x, }
-uint64 stringy	@lengthOf( x_y_z) , } packet rootA
-{ // trailing space 
-@lengthOf( zchar ) char
-_x@lengthOf( x_y_z) ,//	t
-string_ @calculatedFrom(""" ++ [233]%N ++ runes_of_ascii "t" ++ [233]%N ++ runes_of_ascii """ ) /// triple
-, // " ++ [128512]%N ++ runes_of_ascii " emoji
-@lengthOf( A
-    // " ++ [128512]%N ++ runes_of_ascii " emoji
-    ) x_y_z //x
-{ Pad
-    , match
-trueish as u8x {
-    4294967296 : u
-// trailing space 
-/// triple
-, 3
-:
-int 00 : //	t
-u8x
-    // trailing space 
-    , [
-// packet A { u8 x, }
+} ")).
+Eval vm_compute in ("<<<M80>>>" ++ check (runes_of_ascii "// `tick` ""quote"" 'q'
+packet	rootA{ }
+root
+packet x_y_z {
 // `tick` ""quote"" 'q'
-""{,}""
-, ""a	b"" //	t
+// packet A { u8 x, }
+@calculatedFrom( """ ++ [28040; 24687]%N ++ runes_of_ascii """  )// a // b
+@tag( 4294967296) @leftPad	(	'\x00')  match Z9_ as len // c
+{0: x_y_z /// triple
+, [ 255 , 007 ] : string_["""" ,
+""`tick`"" , """" ,
+10 ,""it's"" ,
+    """ ++ [233]%N ++ runes_of_ascii "t" ++ [233]%N ++ runes_of_ascii """ ]	: BodyLength	, 4294967296 : u,4294967296
+    // " ++ [27880; 37322]%N ++ runes_of_ascii "
+    :	Header ,
+""packet"": trueish , }
 ,
-0 ,3
-,0123456789
-, ""a\""b"" ]
-:body ,
-    65535 :
-T
-    , } , }
-    , i32 chars , }")).
-Eval vm_compute in ("<<<M451>>>" ++ check (runes_of_ascii "// packet A { u8 x, }
-MetaData f32a{ int64 i8i8
-, u64
-Packet
-    `` ,  falsey// @lengthOf(
+match int as asx { 007 : leftPad , ""abc"":
 _x
-    ,// trailing space 
-tag roots``,uint32 // packet A { u8 x, }
-Foo `two words`
-,
-char[]asx ,
-}packet options1 {
-    char[  00
-]
-    u128,
-//x
-// a // b
-@calculatedFrom( ""`tick`"" )
-Header @calculatedFrom(  ""1""	) ,
-@leftPad ( ) match// " ++ [128512]%N ++ runes_of_ascii " emoji
-u// `tick` ""quote"" 'q'
-as
-    o {
-[ ""a\\""
-    // trailing space 
-    ] :
-// packet A { u8 x, }
-// " ++ [128512]%N ++ runes_of_ascii " emoji
-stringy	""abc""// packet A { u8 x, }
-:	f32a
-,
-} ,	f64 x_y_z
-@lengthOf( o )  ,	repeat
-    char[  00	] //x
-int
-`
-` , char[]options1 `{ , }`
-,// `tick` ""quote"" 'q'
-zchar[ // c
-00 ]	charz// a // b
-,
-    char[]
-    MetaDataX `a\`
-    ,
-match packetx	as zchar { [10 , 1 ] :
-    i8i8 , ""CRC32""
-:
-// `tick` ""quote"" 'q'
-//	t
-Logon
-// `tick` ""quote"" 'q'
-// @lengthOf(
-, } , }
-//	t
-")).
-Eval vm_compute in ("<<<M1167>>>" ++ check (runes_of_ascii "packet a1 {
-@tag(
-    007 )
-    match packetx as a1 { [	0123456789,  0123456789 ]
-: tag , ""\n"" : uint8x
-, 00 : Z9_ ,""\" ++ [233]%N ++ runes_of_ascii """  :i64_ [ ""// no comment""
-    , ""`tick`"" ]
-: asx ,
-    } , //
-} options {crc='0' Logon
-=
-""""
-;
-    // packet A { u8 x, }
-    falsey = 4294967296 // trailing space 
-; }
-    packet	string_
-    {
-repeat leftPad { repeat  uint64 x , u8 uint8x `u8 x,` ,	} ,repeat tag options1// packet A { u8 x, }
-,// trailing space 
-int64 /// triple
-trueish
-    @lengthOf( asx )`
-`
-// trailing space 
-//
-,
-    // c
-    match i8i8 as MetaDataX {
-""a\\"" :
-    //x
-    falsey
-    , }, repeat char[ 1 ]
-    As
-    , zchar[42 ]	Pad@lengthOf(
-    repeatCount ) ,
-@leftPad ( '\x00' /// triple
-)
-uint64 string_ `say ""hi""` , @calculatedFrom( ""CRC32""
-) char MetaDataX , // packet A { u8 x, }
-}")).
-Eval vm_compute in ("<<<M886>>>" ++ check (runes_of_ascii "// `tick` ""quote"" 'q'
-root
-packet // " ++ [27880; 37322]%N ++ runes_of_ascii "
-MetaDataX {	zchar[ 10 ] len`// not a comment`
-, // " ++ [128512]%N ++ runes_of_ascii " emoji
-repeat matchKey
-    // " ++ [128512]%N ++ runes_of_ascii " emoji
-    { u // a // b
-falsey `tab	here`  ,	}, @tag(0123456789 ) string u8x ,
-zchar[ 3 ]
-    msg_type @lengthOf(
-As ) , @rightPad // `tick` ""quote"" 'q'
-( ) char	Packet , @rightPad (	)f64 u
-    // `tick` ""quote"" 'q'
-    , @lengthOf( uint8x ) @lengthOf(
-    x_y_z )
-@lengthOf(float ) Logon@lengthOf(pack	)
-`a\`  ,@lengthOf( Logon ) char[]
-    // a // b
-    rootA
-@calculatedFrom( // " ++ [128512]%N ++ runes_of_ascii " emoji
-""1"" ) ,
-int64
-    stringy @lengthOf( zchar)`{ , }`,
-match
-// a // b
-// " ++ [27880; 37322]%N ++ runes_of_ascii "
-string_ as As { 7 :
-metadata
-""x y""// " ++ [128512]%N ++ runes_of_ascii " emoji
-: packetx ,""" ++ [233]%N ++ runes_of_ascii "t" ++ [233]%N ++ runes_of_ascii """  : repeatCount ,
-} ,
-    // @lengthOf(
-    }	root packet matchKey { } packet charz
-{  }
-")).
-Eval vm_compute in ("<<<M713>>>" ++ check (runes_of_ascii "packet
-    // @lengthOf(
-    leftPad { match body as chars { 7:Pad[ """" ] :
-//x
-// trailing space 
-Pad ,[
-""packet"" , 7 , // trailing space 
-""\" ++ [233]%N ++ runes_of_ascii """ // packet A { u8 x, }
-,	3
-, ""1"" ,	""" ++ [233]%N ++ runes_of_ascii "t" ++ [233]%N ++ runes_of_ascii """, 42 ,
-007
-    ] :calculatedFrom [ ""a\\""  ,
-""`tick`""
-    // " ++ [128512]%N ++ runes_of_ascii " emoji
-    , /// triple
-""it's"" ,// " ++ [27880; 37322]%N ++ runes_of_ascii "
-""CRC32""
-    , ""x y"" ,
-    """ ++ [128512]%N ++ runes_of_ascii """
-// `tick` ""quote"" 'q'
-// trailing space 
-,
-    // trailing space 
-    ""a\\"" ] : falsey , } , @lengthOf(a1 )
-@rightPad ( '\x00' ) i64 matchKey ,
-    @lengthOf( o ) _x { tag
-`say ""hi""` //x
-, }
-    , @calculatedFrom( ""\n"")
-// trailing space 
-//x
-body
-    BodyLength
-//x
-//x
-, u16 // packet A { u8 x, }
-msg_type ,// @lengthOf(
-} packet a1  { zchar[
-    4294967296]u
-    // " ++ [27880; 37322]%N ++ runes_of_ascii "
-    ,string Logon`" ++ [233]%N ++ runes_of_ascii "`
-, }")).
-Eval vm_compute in ("<<<M3506>>>" ++ check (runes_of_ascii "options { LittleEndian // c2
-= true ; // c5
-ArrayPrefixLenType = // c7a
-  // c7b
-u64 ; // c9a
-  // c9b
-FixedStringPadFromLeft // c10
-= // c11a
-  // c11b
-false ;
-    // c13
-} packet // c15
-Quote
-    // c16
-{ // c17
-}
-    // c18
-root // c19
-packet
-    // c20
-Order { // c22
-i64
-    // c23
-Side2 // c24
-,
-    // c25
-Quote
-    // c26
-,
-    // c27
-u32 // c28
-Px // c29a
-  // c29b
-, // c30a
-  // c30b
-match Px
-    // c32
-as
-    // c33
-Body // c34
-{ [
-    // c36
-119 // c37
-, // c38a
-  // c38b
-147 ] // c40a
-  // c40b
-: // c41
-Quote ,
-    // c43
-} // c44a
-  // c44b
-, // c45a
-  // c45b
-u16 // c46
-Flags
-    // c47
-@calculatedFrom( ""CRC32"" ) // c50
-, // c51a
-  // c51b
-} // c52
-")).
-Eval vm_compute in ("<<<M1019>>>" ++ check (runes_of_ascii "packet
-Foo { @calculatedFrom( ""it's"")/// triple
-@calculatedFrom( ""// no comment"" )	pack @calculatedFrom(
-    ""// no comment"" ) `tab	here`
-, }
-root packet options1 { @tag( 42 ) // a // b
-repeat char[ 42 // a // b
-]
-Packet `// not a comment`,	Logon { len ,  crc { zchar[ 65535
-    ] msg_type
-    @calculatedFrom( ""`tick`""
-) ,}
-    ,}, } packet matchKey
-{ @lengthOf(int
-    )
-@calculatedFrom(
-    ""// no comment""
-)  @tag(7
-// `tick` ""quote"" 'q'
-// @lengthOf(
-) x_y_z ,
-    i16 x_y_z `say ""hi""`
-    , @calculatedFrom(	""" ++ [233]%N ++ runes_of_ascii "t" ++ [233]%N ++ runes_of_ascii """
-    )
-    @calculatedFrom( //x
-"""")
-// a // b
-//x
-@tag(
-4294967296 )
-    // @lengthOf(
-    BodyLength string_,	}")).
-Eval vm_compute in ("<<<M1127>>>" ++ check (runes_of_ascii "packet calculatedFrom {// trailing space 
-@lengthOf( // `tick` ""quote"" 'q'
+65535 :stringy ""CRC32"" : int , 255 : A }, match asx as a1  {	[ 0123456789 ]: crc,""packet"" : leftPad ,
+    ""\n"" : //x
 crc
-) string a1
-`say ""hi""` // trailing space 
-, repeat int64
-    float `" ++ [28040; 24687; 31867; 22411]%N ++ runes_of_ascii "`
-,
-// trailing space 
-// " ++ [128512]%N ++ runes_of_ascii " emoji
-@calculatedFrom( ""`tick`""
-    ) BodyLength
-    @calculatedFrom(
-    ""packet"" )
-, char[ 65535
-    ] pack
-    // packet A { u8 x, }
-    ,	}
-packet
+, 10
     //x
-    Logon// a // b
-{u falsey , repeat i8i8  , calculatedFrom @calculatedFrom(
-    """ ++ [28040; 24687]%N ++ runes_of_ascii """
-) ,
-    // c
-    repeat
-    // " ++ [27880; 37322]%N ++ runes_of_ascii "
-    A As ,  } MetaData uint8x {
-matchKey
-T
-`" ++ [233]%N ++ runes_of_ascii "` ,o T // " ++ [128512]%N ++ runes_of_ascii " emoji
-, char[
-00] int
-`crlf
-line` , char[3
-] pack // " ++ [128512]%N ++ runes_of_ascii " emoji
-,
-len a1 `say ""hi""`// c
-,}")).
-Eval vm_compute in ("<<<M651>>>" ++ check (runes_of_ascii "packet
-u { repeat
-zchar[ 0123456789 // trailing space 
-] x `tab	here`
-/// triple
-//	t
-, @lengthOf( u8x  ) @tag( //x
-3 )@tag(  255 ) options1
-f32a `tab	here`
-    , string BodyLength `u8 x,` ,
-@calculatedFrom( """ ++ [28040; 24687]%N ++ runes_of_ascii """
-    ) string
-u8x  `" ++ [28040; 24687; 31867; 22411]%N ++ runes_of_ascii "`
-, char[ 3 // `tick` ""quote"" 'q'
-] BodyLength , // " ++ [128512]%N ++ runes_of_ascii " emoji
-match rootA
-as
-msg_type { 007 :
-    MetaDataX
-    // " ++ [27880; 37322]%N ++ runes_of_ascii "
-    [ 1	,255, ""CRC32"" , 4294967296] // trailing space 
-: tag ,  }
-// @lengthOf(
-// " ++ [128512]%N ++ runes_of_ascii " emoji
-, float64 a1 `doc`
-, @calculatedFrom( ""a	b"" ) char[3
-    ] body
-, _x	, }
-root
-    packet len {
-    repeat o rootA
-    ,
-}")).
-Eval vm_compute in ("<<<M4296>>>" ++ check (runes_of_ascii "options {
-    tag = ""it's"";
-    int = zchar[00];
-    x_y_z = ""a	b"";
-    packetx = ' ';
+    :
+// a // b
+// a // b
+chars ,},
+    i16
+rootA @calculatedFrom(
+""abc"" ) , @lengthOf(Pad)  rootA As`" ++ [233]%N ++ runes_of_ascii "`,match i64_
+    //	t
+    as packetx{	[ """ ++ [28040; 24687]%N ++ runes_of_ascii """ ] :repeatCount
+, 65535 : i8i8 ,
+    } , // a // b
+stringy len , }packet o{
+} packet
+Header {	_x
+string_ ,
+@lengthOf(
+    u8x )
+lengthOf `it's`
+, } options
+    { A // trailing space 
+= ""it's"";
+zchar
+= ""packet"" ; // " ++ [128512]%N ++ runes_of_ascii " emoji
+len
+= 4294967296 ; T= ""abc""int
+    =
+3 ; }
+")).
+Eval vm_compute in ("<<<M4086>>>" ++ check (runes_of_ascii "//	t
+root packet Header {
+    @tag(255)
+    float32 msg_type @lengthOf(u8x) `" ++ [28040; 24687; 31867; 22411]%N ++ runes_of_ascii "`,
+    //x
+    @calculatedFrom(""a	b"")
+    repeat string i64_,
+    repeat x_y_z {
+        //x
+        asx,
+        string i8i8 @lengthOf(float),
+        uint16 As @calculatedFrom(""x y""),
+    },//
+    @lengthOf(i8i8)
+    msg_type {
+        match tag as Z9_ {
+            [1, ""packet""] : Z9_,
+            [4294967296] : options1,
+            ""\n"" : Pad,
+        },
+        match calculatedFrom as packetx {
+            0123456789 : metadata,
+            [""" ++ [233]%N ++ runes_of_ascii "t" ++ [233]%N ++ runes_of_ascii """] : T,
+            1 : i64_,
+        },//	t
+        match BodyLength as chars {
+            0 : metadata,
+            """ ++ [128512]%N ++ runes_of_ascii """ : u128,
+            ""a\""b"" : calculatedFrom,
+            0 : As,
+            """ ++ [128512]%N ++ runes_of_ascii """ : x_y_z,
+            7 : f32a,
+        },
+        u trueish,
+    },
 }
 
-packet rootA {
-    uint8x @calculatedFrom(""CRC32""),// " ++ [27880; 37322]%N ++ runes_of_ascii "
-    u {
-        repeat string repeatCount `line1
-        line2`,
-        repeat Logon {
-            f32a @lengthOf(roots),
-            Packet {
-                int32 Z9_ `u8 x,`,
-            },
-            Packet Packet,
-        },
-        repeat repeatCount zchar,
-    },
-    a1 @calculatedFrom(""abc""),
-}// `tick` ""quote"" 'q'
+MetaData charz {
+    i32 x `u8 x,`,
+    char[] calculatedFrom `two words`,
+    int8 packetx `crlf
+    line`,
+}
 
-root packet crc {
-    @tag(00)
-    char[7] asx @lengthOf(T) ``,
+MetaData charz {
 }")).
-Eval vm_compute in ("<<<M4283>>>" ++ check (runes_of_ascii "packet
+Eval vm_compute in ("<<<M4315>>>" ++ check (runes_of_ascii "packet zchar {
+    repeat trueish _x,
+    @calculatedFrom(""\n"")
+    uint16 stringy `// not a comment`,
+    @rightPad(' ')
+    body {
+        leftPad i8i8,
+        lengthOf {
+            // " ++ [128512]%N ++ runes_of_ascii " emoji
+            // " ++ [27880; 37322]%N ++ runes_of_ascii "
+            int64 asx `// not a comment`,
+            leftPad {
+                packetx @lengthOf(MetaDataX),
+            },
+            i32 o,
+        },
+    },
+    f32 Z9_ `crlf
+        line`,
+    @calculatedFrom(""abc"")
+    calculatedFrom charz,
+    repeat zchar Z9_,
+    match T as o {
+        00 : calculatedFrom,
+        0123456789 : charz,
+        ""\" ++ [233]%N ++ runes_of_ascii """ : a1,
+    },
+    @lengthOf(A)
+    repeat len,
+}
 
-    pack 
+root packet Pad {
+}
+
+options {
+    msg_type = ""\n""// packet A { u8 x, }
+    trueish = int8;
+    // " ++ [128512]%N ++ runes_of_ascii " emoji
+    // `tick` ""quote"" 'q'
+    repeatCount = ' '
+    u128 = ""\" ++ [233]%N ++ runes_of_ascii """;
+    charz = char[007]
+}
+
+MetaData string_ {
+    i64 Foo `say ""hi""`,
+    chars calculatedFrom,
+}")).
+Eval vm_compute in ("<<<M4171>>>" ++ check (runes_of_ascii "
+packet body 
 {
-@rightPad(' '
+    @tag(
+    0123456789
 )
-A	// c
+repeatCount
+{// @lengthOf(
+i32 
+roots@calculatedFrom(
+""it's""
+	) 
+  // trailing space 
+, char[] 
+repeatCount  @calculatedFrom( ""packet"")
+	`two words` // " ++ [128512]%N ++ runes_of_ascii " emoji
+    ,
+	repeat  u16
 
-@calculatedFrom( ""a\\"" )
+roots , match lengthOf  as
+	As//	t
+  	{ [
 
-// " ++ [128512]%N ++ runes_of_ascii " emoji
-  // " ++ [128512]%N ++ runes_of_ascii " emoji
-	`
-`,
-    u8 f32a  ,
-    zchar[
-    007 
+    ""packet""  ,
+
+""" ++ [28040; 24687]%N ++ runes_of_ascii """  ,
+255,42 , 
+""\" ++ [233]%N ++ runes_of_ascii """ ]
+:
+
+x_y_z	,}
+
+    ,}
+
+,
+trueish
+, @tag(
+
+65535
+
+)
+
+    @tag( 255)/// triple
+@tag(
+00 )
+    chars
+	@calculatedFrom(
+	""it's""	) ,
+	match
+	o 
+as
+    // `tick` ""quote"" 'q'
+
+roots
+{
+	    // " ++ [27880; 37322]%N ++ runes_of_ascii "
+	// c
+""{,}"" :options1
+,
+
+""" ++ [28040; 24687]%N ++ runes_of_ascii """	:
+
+    lengthOf 
+,
+	00
+    :  pack	,  [
+
+    ""a\""b""
+]
+:	msg_type
+,
+	1
+	:i8i8	,
+	[ 10 
+, 3
+	,
+    """"
+] :	falsey ,},}
+
+    root
+packet  // `tick` ""quote"" 'q'
+
+	Z9_
+	{
+	repeat
+
+char[] 	 // a // b
+Packet
+
+,
+
+    string chars @calculatedFrom(
+""a\""b"" )
+`// not a comment` 
+      // " ++ [128512]%N ++ runes_of_ascii " emoji
+		, }
+")).
+Eval vm_compute in ("<<<M896>>>" ++ check (runes_of_ascii "options
+/// triple
+// @lengthOf(
+{ o = '\x00';
+} packet tag {int16
+    falsey// trailing space 
+`two words`
+,
+    /// triple
+    T	,
+}  packet asx {
+match T as	falsey
+    {7
+    :  x , } , zchar[ 4294967296] matchKey
+    @calculatedFrom( // `tick` ""quote"" 'q'
+""`tick`"")
+`" ++ [233]%N ++ runes_of_ascii "` , @lengthOf(	calculatedFrom ) // " ++ [128512]%N ++ runes_of_ascii " emoji
+crc {
+repeat A
+{	msg_type  ,	repeat
+    char[] zchar
+    `{ , }` ,  u16 pack , // " ++ [128512]%N ++ runes_of_ascii " emoji
+u8 metadata @lengthOf( // a // b
+leftPad ) `" ++ [28040; 24687; 31867; 22411]%N ++ runes_of_ascii "` , } , }
+, msg_type {
+    repeat
+Foo{
+    match Foo as  Pad// packet A { u8 x, }
+{
+    [ 65535 ] : //	t
+charz ,[""`tick`"" ] :o
+    ,
+    255 :pack
+    , },
+    char[]	packetx , zchar[7	] i8i8 , } , //	t
+}
+, i8 chars , } root packet metadata// `tick` ""quote"" 'q'
+{  match uint8x as
+    u8x{ 65535 :
+x_y_z ,} ,}MetaData leftPad { i32 u128 , } // " ++ [27880; 37322]%N)).
+Eval vm_compute in ("<<<M4351>>>" ++ check (runes_of_ascii "  MetaData
+
+    options1
+
+    {float64 	 //
+	msg_type
+`say ""hi""`
+,
+    u32  x
+
+, f64 
+// a // b
+	//	t
+	tag 
+, }root
+
+packet
+
+    chars
+    /// triple
+  {
+}
+packet
+repeatCount
+    {
+
+    @lengthOf(
+    a1
+	)
+rootA @lengthOf(
+	crc 
+    // trailing space 
+
+// @lengthOf(
+
+)
+	,}	root	packet	x
+    {chars	@lengthOf(msg_type
+	), 
+      // trailing space 
+	int16  metadata 
+@lengthOf(
+        // @lengthOf(
+  Pad)	,	@tag(
+	3) @lengthOf(
+
+a1 
+) uint8 options1	, repeat	string
+_x
+`" ++ [233]%N ++ runes_of_ascii "`,
+
+    string
+    f32a
+    @calculatedFrom(
+""{,}""
+)
+`{ , }` ,@tag( 4294967296
+    ) 
+@calculatedFrom(
+
+""// no comment"")
+
+@leftPad
+
+    ( )
+
+    BodyLength
+@lengthOf(  falsey 
+	// a // b
+)  `a\`
+
+,/// triple
+    repeat string
+	int	`
+` 
+    // " ++ [27880; 37322]%N ++ runes_of_ascii "
+  ,
+
+u8 
+lengthOf
+    ,
+	}
+")).
+Eval vm_compute in ("<<<M3893>>>" ++ check (runes_of_ascii "options
+
+{ StringPrefixLenType 
+= u16
+    ;
+ArrayPrefixLenType
+
+    =  u32; FixedStringPadFromLeft = false
+    ; FixedStringPadChar =  '0'	;
+    }
+packet  Logout {
+f64
+    f1,
+	i16
+	Note
+	, @rightPad( '\x00'
+
+)char[
+11
 ]
 
-    rootA
-    `u8 x,`	,
+Flags
 
-repeat  
-      /// triple
-	// a // b
+, }
+
+packet
+
+    Cancel 
+{ 
+float64
+    msgKind, } packet Reject
+    {
+	InQty43 {float32
+
+    sym
+,	char[ 
+10
+] Tail
+,
+    uint8
+venue,uint16
+f1 ,
+
+char[9	]
+    Acct
+
+    , } ,
+}  packet
+Trade{char[] 
+x ,zchar[ 
+6  ]
+    Note 
+,	repeat
+Reject , } root
+
+    packet
+    Order {Cancel , Logout	,  u64
+Acct  ,
+
+    u32
+
+    OrderId	, 
+match
+OrderId  as
+Body  {
+    [ 
+127 ,
+
+70 ]  : Reject ,	177: 
+Trade
+	,58
+:
+
+Logout ,  75
+
+    :
+	Cancel ,
+
+}  ,
+
+u32 Tail @calculatedFrom(""CR\
+C32"" 
+),} ")).
+Eval vm_compute in ("<<<M39>>>" ++ check (runes_of_ascii "  options
+    {string_
+    //x
+    =char[ 7 ] ;} options { crc=float64 ; Logon
+    = false // a // b
+As
+    =
+    '0' f32a =
+char[] ; // packet A { u8 x, }
+T =
+00	}	root
+packet x { @calculatedFrom(
+""1"" )repeat zchar[
+    255
+] // " ++ [128512]%N ++ runes_of_ascii " emoji
+string_ , } root packet int {	@tag(4294967296) char[255 // packet A { u8 x, }
+]
+a1
+    ,repeat
+x ``, char[]  packetx
+@lengthOf( uint8x ) `u8 x,` , zchar[ 10 ]leftPad @calculatedFrom( ""a	b"" )
+, lengthOf @calculatedFrom( """"	) , @calculatedFrom(
+    /// triple
+    ""packet"" )
+    i32 matchKey , @rightPad (
+) zchar[ 1
+] A, u32
+Packet @calculatedFrom( ""{,}"" ) `a\`	,// c
+repeat char[00]Header	`say ""hi""`
+    //x
+    , stringy	trueish `// not a comment`, } 	 ")).
+Eval vm_compute in ("<<<M4271>>>" ++ check (runes_of_ascii "// top
+options {
+    // c1
+    LittleEndian = false;
+    StringPrefixLenType = u8;// c9a
+    // c9b
+    ArrayPrefixLenType = u16;
+    // c13
+    FixedStringPadFromLeft = false;// c17a
+    // c17b
+}// c18
+
+packet Heartbeat {
+    // c21a
+    // c21b
+    u8 seqNo,// c24a
+    // c24b
+    @rightPad('\x00')
+    char[8] x,// c33
+}// c34
+
+root packet Trade {
+    // c38
+    repeat Heartbeat,
+    float32 OrderId,// c44
+    i64 Acct,// c47a
+    // c47b
+    u16 Qty,// c50
+    u16 clOrdID,// c53a
+    // c53b
+    match clOrdID as Body {
+        // c58
+        131 : Heartbeat,
+        // c62a
+        // c62b
+    },
+    // c64
+    u16 sym @calculatedFrom(""CRC32""),
+    // c70
+}")).
+Eval vm_compute in ("<<<M926>>>" ++ check (runes_of_ascii "
+packet T {
+@calculatedFrom(""\" ++ [233]%N ++ runes_of_ascii """ )
+    string// a // b
+f32a ,repeat f32
+    falsey , /// triple
+@leftPad	('0' )
+match // packet A { u8 x, }
+repeatCount as
+repeatCount
+    {
+    ""a	b"" : body
+    , } ,
+x_y_z @lengthOf(
+trueish) // `tick` ""quote"" 'q'
+,f64 crc , @calculatedFrom( //	t
+""x y"")@tag( 0 // " ++ [128512]%N ++ runes_of_ascii " emoji
+)
+@tag( 65535 )
+int16 u128 @lengthOf( string_// a // b
+)`" ++ [233]%N ++ runes_of_ascii "` , @calculatedFrom(
+    ""\n"" ) char[0123456789 ]Foo@calculatedFrom(
+""CRC32"" ) ,@calculatedFrom( ""a\\"" )
+match
+    T
+    as msg_type
+{
+    [ 65535,""x y""
+,
+3, 255
+,
+    0	] :
+T,[// trailing space 
+""CRC32"" , ""1""
+    //	t
+    , 3 , 10 , 65535 ]: u //	t
+, 4294967296:	a1 ,
+},}")).
+Eval vm_compute in ("<<<M597>>>" ++ check (runes_of_ascii "  options{} root packet A
+{ @rightPad
+(
+) @lengthOf(u128 ) @calculatedFrom(
+    ""\" ++ [233]%N ++ runes_of_ascii """ ) repeat u {string body
+,
+zchar @lengthOf( roots
+)// " ++ [27880; 37322]%N ++ runes_of_ascii "
+,
+// @lengthOf(
+// @lengthOf(
+uint64
+Pad,// `tick` ""quote"" 'q'
+repeat metadata
+, } ,@tag(3 )	Pad
+@calculatedFrom( ""a\""b""
+    ) `two words` , @leftPad ( '\x00' ) T x`crlf
+line` ,
+    match BodyLength as crc
+{	[  007 ]
+:
+    uint8x,
+00 :u
+""a\""b"" :
+    tag , 00 :	options1 //	t
+, ""\" ++ [233]%N ++ runes_of_ascii """ :trueish	,[  65535 , ""x y"" ,
+"""" ,
+// packet A { u8 x, }
+// @lengthOf(
+3 ] : float,
+} ,} options{ x_y_z // " ++ [128512]%N ++ runes_of_ascii " emoji
+=
+    42
+    //
+    }
+    options {
+zchar
+    = false /// triple
+; }
+")).
+Eval vm_compute in ("<<<M524>>>" ++ check (runes_of_ascii "options {
+tag = ""it's""
+//	t
+// packet A { u8 x, }
+;
+int  = zchar[ 00
+] ; x_y_z =""a	b"" ;  packetx =' '
+    ;}packet
+rootA {  uint8x @calculatedFrom( ""CRC32""
+) ,// " ++ [27880; 37322]%N ++ runes_of_ascii "
+u // `tick` ""quote"" 'q'
+{
+repeat
+string repeatCount
+    `line1
+line2`,
+    repeat Logon{ f32a @lengthOf( roots), Packet {int32
+Z9_ `u8 x,` ,  } , Packet Packet , } , repeat
+// " ++ [128512]%N ++ runes_of_ascii " emoji
+// trailing space 
+repeatCount zchar, } ,
+    a1 @calculatedFrom(""abc""
+) // `tick` ""quote"" 'q'
+,}// `tick` ""quote"" 'q'
+root
+packet crc {
+@tag(00	)
+    char[7
+    // `tick` ""quote"" 'q'
+    ]asx @lengthOf( T ) `` ,
+}
+")).
+Eval vm_compute in ("<<<M3931>>>" ++ check (runes_of_ascii "
+MetaData
+
+matchKey
+
+{ } 
+packet a1  {
+
+    char[]
+int 
+`" ++ [28040; 24687; 31867; 22411]%N ++ runes_of_ascii "` 
+, 
+msg_type @lengthOf(  As 	 // trailing space 
+    ),	@leftPad
+
+( 	 //	t
+
+)	string
+roots `// not a comment`, @lengthOf(
+
+    Logon )
 
 string
 
-u128 	 //
-    `u8 x,`
+    Logon @lengthOf(
+crc
+	)  ,
+	msg_type
+    {
 
+repeat 
+  //x
+    //	t
+
+	u64 a1
+, } // a // b
+  ,
+char[
+	65535	] 	 /// triple
+
+	u
+@calculatedFrom(  /// triple
+
+  ""it's""
+
+) ,
+f32a
+len  , 
+} root
+
+packet
+    asx	{ @leftPad 
+(  ' ')  // c
+
+uint16  uint8x  @lengthOf(
+
+charz
+// c
+	// `tick` ""quote"" 'q'
+    )`two words`,	}")).
+Eval vm_compute in ("<<<M649>>>" ++ check (runes_of_ascii "options //	t
+{ // " ++ [128512]%N ++ runes_of_ascii " emoji
+Logon =
+' '; }	packet
+x_y_z {
+// a // b
+// `tick` ""quote"" 'q'
+@lengthOf( calculatedFrom )//
+match asx as len{ [""\" ++ [233]%N ++ runes_of_ascii """, 255
+    , ""x y""
+    , 7	,
+""" ++ [233]%N ++ runes_of_ascii "t" ++ [233]%N ++ runes_of_ascii """  , ""\" ++ [233]%N ++ runes_of_ascii """ ]:	tag, ""packet"" : o
+[ 7 , """ ++ [28040; 24687]%N ++ runes_of_ascii """  , """ ++ [28040; 24687]%N ++ runes_of_ascii """
 ,
-@leftPad
-
-(
-	' ' 
-)char[	1	]  repeatCount @calculatedFrom( //x
-      ""\n""
-)
-`doc`
-,
-o	, falsey
-
-leftPad	, 
-@calculatedFrom(
-    ""a\""b""
-
-    ) @leftPad
-('0'	)
+    /// triple
+    ""CRC32"" ]	: _x,
+/// triple
+// @lengthOf(
+[3 // " ++ [128512]%N ++ runes_of_ascii " emoji
+, 007// a // b
+, ""packet"" , // " ++ [27880; 37322]%N ++ runes_of_ascii "
+"""" ,
+""CRC32"",0123456789
     //
-
-// " ++ [27880; 37322]%N ++ runes_of_ascii "
-	roots	{u8 zchar @lengthOf(
-
-Logon )  // trailing space 
-	, 
-	    // c
-//	t
-	} , }")).
+    ] : lengthOf
+    // " ++ [27880; 37322]%N ++ runes_of_ascii "
+    , 7 : crc // @lengthOf(
+, 42	://
+zchar,  },int, } MetaData A {
+    BodyLength Foo `// not a comment` ,}
+")).
 Eval vm_compute in ("<<<M747>>>" ++ check (runes_of_ascii "// a // b
 MetaData crc { uint8x len ,
 string
@@ -1575,256 +1689,327 @@ lengthOf `u8 x,` ,
 line` , } options{}  packet Packet { lengthOf
     ,	}
 ")).
-Eval vm_compute in ("<<<M3982>>>" ++ check (runes_of_ascii "packet f32a {
-}
-
-packet trueish {
-    @rightPad()
-    rootA @lengthOf(Pad),
-    @tag(0)
-    Logon @lengthOf(trueish),
-    As `
-    `,
-    repeat int8 Logon,
-    @tag(255)
-    // `tick` ""quote"" 'q'
-    char A,
-    i64 Header,
-    match Z9_ as falsey {
-        65535 : x_y_z,
-        ""CRC32"" : float,
-    },
-    i8 len,
-    @tag(7)
-    // `tick` ""quote"" 'q'
-    repeat rootA x_y_z,
-    @tag(00)
-    zchar[007] x_y_z `a\`,
-}
-
-MetaData roots {
-}// `tick` ""quote"" 'q'")).
-Eval vm_compute in ("<<<M662>>>" ++ check (runes_of_ascii "packet
-    Foo {repeat u {char[ 0123456789 ]
-    string_
-@calculatedFrom(""it's"")
-    `" ++ [233]%N ++ runes_of_ascii "` , }, } options { Foo =
-    ""a\\"";
-msg_type= 4294967296 o = ""CRC32"" ;
-options1 = char[ // " ++ [128512]%N ++ runes_of_ascii " emoji
-7
-]; }
-    root packet	u{match
-    _x as
-rootA
-{
-007 :
-    f32a
-[ 007
-] :
-    u8x
-,[ 007
-,  ""packet""
-]
-    // @lengthOf(
-    :
-_x, [
-// packet A { u8 x, }
-// trailing space 
-007 ,  10 ]
-: i64_, }
-, int8 charz
-    // `tick` ""quote"" 'q'
-    `two words` ,}
-")).
-Eval vm_compute in ("<<<M4055>>>" ++ check (runes_of_ascii "MetaData rootA {
-    char[42] body `tab	here`,
-    string pack,
-    zchar[65535] A `it's`,
-    i64_ Pad,
-}
-
-MetaData leftPad {
-    int16 u,
-}
-
-packet trueish {
-    @tag(00)
-    char[42] MetaDataX `crlf
-    line`,
-    @lengthOf(asx)
-    chars charz,
-    @rightPad('0')
-    @lengthOf(a1)
-    char[] Packet @calculatedFrom(""x y"") `crlf
-    line`,
-    len i8i8,
-    @rightPad('\x00')
-    options1 {
-        x @lengthOf(Z9_),
-    },
-}")).
-Eval vm_compute in ("<<<M863>>>" ++ check (runes_of_ascii "packet // " ++ [27880; 37322]%N ++ runes_of_ascii "
-u8x{  u64
-    metadata `a\`,  @tag(  65535 ) @rightPad(
-    )	repeat
-int16 As
-    , @rightPad ( )
-match	lengthOf as body {7 :
-// @lengthOf(
-// @lengthOf(
-chars	,  [ 255 ,
-""// no comment"" ,
-    //x
-    0123456789
-,""\n""
-    , 7 ,	""a	b"" ] :
-    x_y_z , ""abc"":
-metadata
-} , } packet
-    lengthOf{char[] // " ++ [128512]%N ++ runes_of_ascii " emoji
-As
-@calculatedFrom(	""a\\"" )
-// " ++ [128512]%N ++ runes_of_ascii " emoji
-// `tick` ""quote"" 'q'
-`a\`
-    //
-    , }
-// c
-")).
-Eval vm_compute in ("<<<M905>>>" ++ check (runes_of_ascii "options{ Foo
-    // " ++ [27880; 37322]%N ++ runes_of_ascii "
-    = ' ' ; //
-calculatedFrom =
-'\x00' ; Logon//x
-= 0 //
-x=
-    '\x00' ; // packet A { u8 x, }
-} packet
-    _x	{
-@calculatedFrom( """ ++ [28040; 24687]%N ++ runes_of_ascii """  ) repeat int32 Z9_, Pad packetx , @lengthOf(
-u128  )
-    @tag( 1 ) match msg_type as
-    x
-{
-    // @lengthOf(
-    [
-""" ++ [233]%N ++ runes_of_ascii "t" ++ [233]%N ++ runes_of_ascii """]
-    :x , } // " ++ [27880; 37322]%N ++ runes_of_ascii "
-,@lengthOf(	a1
+Eval vm_compute in ("<<<M211>>>" ++ check (runes_of_ascii "packet leftPad
+    {  BodyLength
+{ // a // b
+rootA {
+char[ 00]
+leftPad,
+    // trailing space 
+    tag // " ++ [27880; 37322]%N ++ runes_of_ascii "
+@calculatedFrom( ""abc""
     // " ++ [128512]%N ++ runes_of_ascii " emoji
-    ) leftPad
-// a // b
-//x
-As , i8i8
-_x
-    ,
-    } // " ++ [128512]%N ++ runes_of_ascii " emoji")).
-Eval vm_compute in ("<<<M22>>>" ++ check (runes_of_ascii "packet  Pad{
-@leftPad ( '0' ) @calculatedFrom( ""`tick`""
-    )// @lengthOf(
-match
-    i64_ as x
-    {
-    /// triple
-    00: zchar
-    , } , i8i8 o // " ++ [27880; 37322]%N ++ runes_of_ascii "
-,char[] _x
-, repeat zchar[007 ] trueish
-    ,zchar @lengthOf( trueish)`{ , }`
-,// c
-@calculatedFrom(""a\""b"") @tag( 1 ) trueish zchar ,
-char[
-    3 ] rootA @calculatedFrom(
-    ""a\""b"" )
-`tab	here`
-//	t
-// trailing space 
-,
-}")).
-Eval vm_compute in ("<<<M580>>>" ++ check (runes_of_ascii "packet // `tick` ""quote"" 'q'
-i8i8	{ } packet
-    //	t
-    i64_// packet A { u8 x, }
-{repeat int8 crc `
+    ) , char[	42 ] // c
+len ,
+string MetaDataX  ,}, match Z9_ as A { ""1""  : x, ""packet"" // trailing space 
+: lengthOf	} , i64
+    // trailing space 
+    chars @lengthOf(	msg_type
+    ) `
 `
-    // a // b
-    , // a // b
-As,
-    }
-MetaData
-    roots { roots roots `" ++ [233]%N ++ runes_of_ascii "` ,
-    }  packet tag
-    { @calculatedFrom( """ ++ [233]%N ++ runes_of_ascii "t" ++ [233]%N ++ runes_of_ascii """  ) @lengthOf( Packet
-) repeat float64
-asx`two words`
-,  BodyLength
-@calculatedFrom(
-// packet A { u8 x, }
-// c
-""a	b""	), }
-// c
+, },zchar[ 3 //
+]  u128
+    @lengthOf(//	t
+packetx
+) , @leftPad ( '\x00'
+)char[] chars @calculatedFrom( ""`tick`"" ) //
+, }
 ")).
-Eval vm_compute in ("<<<M1056>>>" ++ check (runes_of_ascii "options {
-}packet crc // " ++ [27880; 37322]%N ++ runes_of_ascii "
-{ calculatedFrom{ zchar[7
-    ] Logon , // @lengthOf(
-trueish
-rootA `say ""hi""`
-// `tick` ""quote"" 'q'
-/// triple
-, repeat
-    // packet A { u8 x, }
-    calculatedFrom Z9_ , repeat
-MetaDataX { repeat // " ++ [27880; 37322]%N ++ runes_of_ascii "
-char[] int ,
-},
+Eval vm_compute in ("<<<M3996>>>" ++ check (runes_of_ascii "options {
+}// " ++ [27880; 37322]%N ++ runes_of_ascii "
+
+root packet leftPad {
+    match T as u8x {
+        // trailing space 
+        4294967296 : Logon,
+        ""1"" : i8i8,
+        0123456789 : tag,
+        ""a\""b"" : options1,
+        4294967296 : T,
+    },
+    repeat matchKey {
+        repeat string rootA,
+        repeat int64 zchar `
+                `,
+    },
+    i32 x_y_z,
+    zchar[007] packetx `it's`,
+    // a // b
+    // `tick` ""quote"" 'q'
+    repeat zchar[255] falsey,
+}// " ++ [27880; 37322]%N)).
+Eval vm_compute in ("<<<M4059>>>" ++ check (runes_of_ascii "
+packet
+Frame {  u8
+HK ,
+u8
+
+    BK
+	,
+u8
+TK
+
+,
+match	HK
+
+as
+
+Hdr	{1
+:
+	HdrA
+
+    ,
+2
+    : 
+HdrB , 
+}
+
+,
+	match
+BK
+	as
+
+Body { 
+1
+:
+BodyA
+
+    ,2:  BodyB
+
+    ,
+
     }
-, rootA @calculatedFrom(
-""it's""
-    )
 , match
-    charz as body
-{0123456789: chars ,
-} ,
+TK as
+
+Trl { 1  : TrlA 
+,  },  }	packet  HdrA {u8	a
+    ,
+	}
+packet
+
+    HdrB
+{u16
+	b
+
+    ,
+    } packet	BodyA
+	{
+u32
+c
+,  }
+
+packet BodyB	{
+
+u64
+
+d ,
+    }
+
+    packet  TrlA	{ u8
+
+e, }
+root 
+packet
+	Msg{  Frame, 
+u8 x
+	,  }
+")).
+Eval vm_compute in ("<<<M599>>>" ++ check (runes_of_ascii "
+packet i64_ // `tick` ""quote"" 'q'
+{ uint8x @calculatedFrom(""abc"" // " ++ [27880; 37322]%N ++ runes_of_ascii "
+) , char stringy ,@lengthOf( i8i8
+) match BodyLength
+as o{""" ++ [233]%N ++ runes_of_ascii "t" ++ [233]%N ++ runes_of_ascii """ :	Z9_
+,
+    ""x y""
+    : stringy , } ,@rightPad
+    /// triple
+    ('0'  )
+repeat T
+    {  repeatCount
+    , uint16
+As @lengthOf( // `tick` ""quote"" 'q'
+Packet )
+    ,	repeat	len
+, }, @lengthOf( packetx )
+Pad , @calculatedFrom(""" ++ [28040; 24687]%N ++ runes_of_ascii """
+    ) // @lengthOf(
+o ,zchar[ 00 ] rootA
+,
 }
 ")).
-Eval vm_compute in ("<<<M3563>>>" ++ check (runes_of_ascii "
+Eval vm_compute in ("<<<M300>>>" ++ check (runes_of_ascii "
 root
-	packet Foo // " ++ [128512]%N ++ runes_of_ascii " emoji
+    packet pack
+{
+repeat u8x
+    `a\`
+    , char[ 3 ]MetaDataX `two words` ,
+    @leftPad ( ' '  ) zchar[ 4294967296 ]crc
+@calculatedFrom( """ ++ [128512]%N ++ runes_of_ascii """
+)
+    // c
+    ,  @lengthOf(
+    // " ++ [27880; 37322]%N ++ runes_of_ascii "
+    options1 )
+// " ++ [128512]%N ++ runes_of_ascii " emoji
+// " ++ [27880; 37322]%N ++ runes_of_ascii "
+@calculatedFrom( ""x y"" )repeat u{ repeat	x_y_z options1
+`two words` , zchar[3	]
+charz ,
+    Logon { u8	pack ,
+repeat zchar , i8i8{ repeat
+    u8
+    matchKey , }, } ,
+}, }")).
+Eval vm_compute in ("<<<M1285>>>" ++ check (runes_of_ascii "
+options { A
+= ""it's""
+} options { }packet	pack {
+int16 zchar ,
+    @tag( 007 )@lengthOf( Pad
+)// trailing space 
+@leftPad ( ' '
+)match stringy as body{
+    [255 ,
+42
+, // " ++ [128512]%N ++ runes_of_ascii " emoji
+1
+    // trailing space 
+    , 00 ,
+    """",
+10
+, ""{,}"" ] :
+    repeatCount
+, [ 1 ] : x_y_z ,
+    ""`tick`""
+:
+packetx, 7 : u128,
+    } // `tick` ""quote"" 'q'
+,u32 body@lengthOf(	stringy )
+, } 	 ")).
+Eval vm_compute in ("<<<M431>>>" ++ check (runes_of_ascii "packet roots{char[  007 ]
+len ,  repeat char[]
+// c
+/// triple
+Pad
+    `" ++ [233]%N ++ runes_of_ascii "` , //x
+repeat rootA {
+match roots as falsey{
+    ""a	b""  : f32a ,}	,string chars
+    ,
+match rootA as lengthOf{ 10 // " ++ [27880; 37322]%N ++ runes_of_ascii "
+: Foo ,  ""abc"" : A ,
+    65535:u8x ,
+    [ 255
+,
+""CRC32""
+] :
+len } //x
+, }
+// " ++ [27880; 37322]%N ++ runes_of_ascii "
+// @lengthOf(
+,} MetaData calculatedFrom
+    /// triple
+    {matchKey zchar`a\`,
+}
+")).
+Eval vm_compute in ("<<<M3922>>>" ++ check (runes_of_ascii "
+root
+    // trailing space 
+    packet
 
-  {
-    }
-options
+    //	t
+//
+	trueish	{ @tag(
 
-{ 
-  // a // b
-	  tag // `tick` ""quote"" 'q'
-    =	//	t
-""""
+0
 
-    ; u8x 
-=zchar[0
-	]  } 
-MetaData
-	int {zchar[ 10 ] lengthOf 
-``, 
-i64
-u8x
-	`// not a comment`
-    , MetaDataX
+)@lengthOf( float )
 
-    pack	// `tick` ""quote"" 'q'
-	`crlf
-line`
+    @lengthOf(
 
-    , 
+    trueish
+
+)  repeat
+
+    uint8
+
+    Logon
+    `line1
+line2`
+
+,char[]
+	body
+@lengthOf( A
+	)
+	`
+`
+,
+	// " ++ [128512]%N ++ runes_of_ascii " emoji
+    	// c
+    repeat 
+
+// packet A { u8 x, }
+	char[ 00
+
+    ]
+MetaDataX ,@leftPad(
+)
+repeat	int8 pack
+
+,
+
+}
+
+")).
+Eval vm_compute in ("<<<M3212>>>" ++ check (runes_of_ascii "// top
+packet
+    // c0
 Logon
-charz
-`crlf
-line` , 
-  //'1' a // b
-  } ")).
+    // c1
+{
+    // c2
+@tag(
+    // c3
+42
+    // c4
+)
+    // c5
+@rightPad
+    // c6
+(
+    // c7
+' '
+    // c8
+)
+    // c9
+@leftPad
+    // c10
+(
+    // c11
+)
+    // c12
+repeat
+    // c13
+trueish
+    // c14
+{
+    // c15
+string
+    // c16
+T
+    // c17
+,
+    // c18
+}
+    // c19
+,
+    // c20
+}
+    // c21
+")).
 Eval vm_compute in ("<<<M219>>>" ++ check (runes_of_ascii "root packet x {string
 packetx
     // @lengthOf(
@@ -1845,846 +2030,888 @@ u128
     1:len
     , },}
 ")).
-Eval vm_compute in ("<<<M283>>>" ++ check (runes_of_ascii "root packet
-    i64_ {@tag(4294967296) match lengthOf as // " ++ [27880; 37322]%N ++ runes_of_ascii "
-charz	{ 1 :
-T , } ,repeat char[ 00]
-MetaDataX //x
+Eval vm_compute in ("<<<M329>>>" ++ check (runes_of_ascii "
+options{MetaDataX =
+    char }packet packetx {match // packet A { u8 x, }
+string_
+    as trueish {""a\""b"" : crc // trailing space 
 ,
-match // @lengthOf(
-Foo as
-    chars{ // `tick` ""quote"" 'q'
-""" ++ [28040; 24687]%N ++ runes_of_ascii """:charz
-, } ,} root packet MetaDataX {
-@lengthOf( chars// " ++ [128512]%N ++ runes_of_ascii " emoji
-)
-uint16 Foo , Foo ,
-    } packet zchar { // trailing space 
+1 : calculatedFrom [
+1 ]  : u8x	, }
+, }options {}
+    MetaData Z9_
+    // " ++ [128512]%N ++ runes_of_ascii " emoji
+    {
+    string MetaDataX `` // trailing space 
+, }options{ o= '\x00';// trailing space 
 }")).
-Eval vm_compute in ("<<<M1292>>>" ++ check (runes_of_ascii "packet body {
-i32
-options1 , } packet
-int {repeat
-    f32a
-{ options1@calculatedFrom(
-    ""abc"" // " ++ [27880; 37322]%N ++ runes_of_ascii "
-)
-    // a // b
-    ,
-    zchar[4294967296 ]calculatedFrom , x_y_z
-@calculatedFrom(""packet""	) `say ""hi""` , }
-,
-}packet x_y_z{
-repeat
-    float64 MetaDataX
-    `crlf
-line` //	t
-, crc A ``
-,
-    }
-")).
-Eval vm_compute in ("<<<M1455>>>" ++ check (runes_of_ascii "root packet Foo // " ++ [128512]%N ++ runes_of_ascii " emoji
-{ } options {
-    // a // b
-    tag // `tick` ""quote"" 'q'
-= //	t
-"""" """"
-    ; u8x = zchar[0  ] }
-MetaData
-    int {zchar[ 10]
-lengthOf	`` , i64 u8x`// not a comment` ,MetaDataX pack// `tick` ""quote"" 'q'
-`crlf
-line`
-, Logon charz `crlf
-line`
-    ,
-    // a // b
-    }
-")).
-Eval vm_compute in ("<<<M1600>>>" ++ check (runes_of_ascii "root packet Foo // " ++ [128512]%N ++ runes_of_ascii " emoji
-{ } options {
-    // a // b
-    tag // `tick` ""quote"" 'q'
-= //	t
-""""
-    ; u8x = zchar[0  ] }
-MetaData
-    int {zchar[ 10]
-lengthOf	`` , i64 u8x`// not a comment` ,MetaDataX pack// `tick` ""quote"" 'q'
-`crlf
-line`
-, Logon charz `crlf
-line`
-    ,
-    // a // b
-    } }
-")).
-Eval vm_compute in ("<<<M1456>>>" ++ check (runes_of_ascii "root packet Foo // " ++ [128512]%N ++ runes_of_ascii " emoji
-{ } options {
-    // a // b
-    tag // `tick` ""quote"" 'q'
-= //	t
-;
-    """" u8x = zchar[0  ] }
-MetaData
-    int {zchar[ 10]
-lengthOf	`` , i64 u8x`// not a comment` ,MetaDataX pack// `tick` ""quote"" 'q'
-`crlf
-line`
-, Logon charz `crlf
-line`
-    ,
-    // a // b
-    }
-")).
-Eval vm_compute in ("<<<M1424>>>" ++ check (runes_of_ascii "root packet Foo // " ++ [128512]%N ++ runes_of_ascii " emoji
- } options {
-    // a // b
-    tag // `tick` ""quote"" 'q'
-= //	t
-""""
-    ; u8x = zchar[0  ] }
-MetaData
-    int {zchar[ 10]
-lengthOf	`` , i64 u8x`// not a comment` ,MetaDataX pack// `tick` ""quote"" 'q'
-`crlf
-line`
-, Logon charz `crlf
-line`
-    ,
-    // a // b
-    }
-")).
-Eval vm_compute in ("<<<M1477>>>" ++ check (runes_of_ascii "root packet Foo // " ++ [128512]%N ++ runes_of_ascii " emoji
-{ } options {
-    // a // b
-    tag // `tick` ""quote"" 'q'
-= //	t
-""""
-    ; u8x = as 0  ] }
-MetaData
-    int {zchar[ 10]
-lengthOf	`` , i64 u8x`// not a comment` ,MetaDataX pack// `tick` ""quote"" 'q'
-`crlf
-line`
-, Logon charz `crlf
-line`
-    ,
-    // a // b
-    }
-")).
-Eval vm_compute in ("<<<M1524>>>" ++ check (runes_of_ascii "root packet Foo // " ++ [128512]%N ++ runes_of_ascii " emoji
-{ } options {
-    // a // b
-    tag // `tick` ""quote"" 'q'
-= //	t
-""""
-    ; u8x = zchar[0  ] }
-MetaData
-    int {zchar[ 10]
-	`` , i64 u8x`// not a comment` ,MetaDataX pack// `tick` ""quote"" 'q'
-`crlf
-line`
-, Logon charz `crlf
-line`
-    ,
-    // a // b
-    }
-")).
-Eval vm_compute in ("<<<M4480>>>" ++ check (runes_of_ascii "options {
-    u128 = u32;
-    Z9_ = ""`tick`""
-    trueish = ""`tick`"";
-    // @lengthOf(
-    tag = '0'
-}
-
-options {
-    metadata = ""a	b"";
-    packetx = '\x00'// " ++ [128512]%N ++ runes_of_ascii " emoji
-}
-
-options {
-    charz = 65535
-}
-
-options {
-    msg_type = zchar[10];
-    asx = false
-    tag = char[];
-}")).
-Eval vm_compute in ("<<<M1294>>>" ++ check (runes_of_ascii "packet _x { // packet A { u8 x, }
-repeat
-    u8
-// @lengthOf(
-//	t
-Logon ,match Packet as repeatCount
-{
-    65535 : leftPad
-    ,[ 7 ]: rootA 4294967296	: Header ,[	00 // trailing space 
-]:u8x
-    ,42 : MetaDataX , 007 :
-// " ++ [27880; 37322]%N ++ runes_of_ascii "
-// " ++ [27880; 37322]%N ++ runes_of_ascii "
-uint8x , // @lengthOf(
-} ,}")).
-Eval vm_compute in ("<<<M4160>>>" ++ check (runes_of_ascii "packet charz {
-    repeat Z9_ x,
-    @calculatedFrom(""`tick`"")
-    string A `crlf
-    line`,
-    repeat crc {
-        repeat u8x,
-        char[42] x @lengthOf(o),
-    },
-}
-
-MetaData tag {
-    uint16 falsey `say ""hi""`,
-    i32 asx,
-    char[007] As,
-}")).
-Eval vm_compute in ("<<<M3213>>>" ++ check (runes_of_ascii "packet Logon // c1a
-  // c1b
-{ // c2a
-  // c2b
-@tag( 42 // c4
-) // c5
-@rightPad (
-    // c7
-' ' ) @leftPad
-    // c10
-( )
-    // c12
-repeat // c13
-trueish
-    // c14
-{
-    // c15
-string
-    // c16
-T
-    // c17
-, }
-    // c19
-,
-    // c20
-} ")).
-Eval vm_compute in ("<<<M424>>>" ++ check (runes_of_ascii "options{ } options { Foo  =	3;
-u// @lengthOf(
-=	""{,}"" trueish
-=
-3
-// c
-// a // b
-;  a1 = char[] } //	t
-packet//
-i64_
-{ repeat Header rootA `a\`
-    , /// triple
-@tag( 3)
-char[// `tick` ""quote"" 'q'
-10 ]  matchKey
-`{ , }`, } // c")).
-Eval vm_compute in ("<<<M12>>>" ++ check (runes_of_ascii "  MetaData	calculatedFrom
-{char[]
-lengthOf
-    , } // trailing space 
-root // " ++ [27880; 37322]%N ++ runes_of_ascii "
-packet _x { @calculatedFrom(""" ++ [28040; 24687]%N ++ runes_of_ascii """) repeat zchar _x ,
-    // packet A { u8 x, }
-    repeat zchar[42//x
-]
-Pad , @tag(42	)char[ 42] u8x
-    ,}
-")).
-Eval vm_compute in ("<<<M4001>>>" ++ check (runes_of_ascii "packet BodyLength {
-    //	t
-    x f32a `line1
-    line2`,
-    @calculatedFrom(""a\\"")
-    @lengthOf(repeatCount)
-    i8 Header `{ , }`,
-    float64 leftPad @calculatedFrom(""\" ++ [233]%N ++ runes_of_ascii """),
-    @calculatedFrom(""1"")
-    uint64 o,
-}")).
-Eval vm_compute in ("<<<M2361>>>" ++ check (runes_of_ascii "MetaData Packet { }packet	asx  { @lengthOf( asx) falsey`crlf
-line`
-,
-    }
-    packet x	{uint32// @lengthOf(
-rootA	,u32 options1 `say ""hi""` , @tag( 7
-    )// packet A { u8 x, }
-msg_type @lengthOf(
-stringy	) )	, }
-
-")).
-Eval vm_compute in ("<<<M2247>>>" ++ check (runes_of_ascii "MetaData Packet { }packet	asx  { asx @lengthOf() falsey`crlf
-line`
-,
-    }
-    packet x	{uint32// @lengthOf(
-rootA	,u32 options1 `say ""hi""` , @tag( 7
-    )// packet A { u8 x, }
-msg_type @lengthOf(
-stringy	)	, }
-
-")).
-Eval vm_compute in ("<<<M2255>>>" ++ check (runes_of_ascii "MetaData Packet { }packet	asx  { @lengthOf( asx falsey`crlf
-line`
-,
-    }
-    packet x	{uint32// @lengthOf(
-rootA	,u32 options1 `say ""hi""` , @tag( 7
-    )// packet A { u8 x, }
-msg_type @lengthOf(
-stringy	)	, }
-
-")).
-Eval vm_compute in ("<<<M3786>>>" ++ check (runes_of_ascii "// top
-packet u128 {
-    @lengthOf(body)
-    // c5
-    match x_y_z as u {
-        // c10
-        ""x y"" : i8i8,
-        // c14
-    },// c16
-    @tag(255)
-    // c19
-    char[] roots @lengthOf(int),// c25
-}// c26")).
-Eval vm_compute in ("<<<M2364>>>" ++ check (runes_of_ascii "MetaData Packet { }packet	asx  { @lengthOf( asx) falsey`crlf
-line`
-,
-    }
-    packet x	{uint32// @lengthOf(
-rootA	,u32 options1 `say ""hi""` , @tag( 7
-    )// packet A { u8 x, }
-msg_type @lengthOf(
-stringy")).
-Eval vm_compute in ("<<<M781>>>" ++ check (runes_of_ascii "//x
-MetaData	Z9_ // `tick` ""quote"" 'q'
-{ trueish
-stringy``
-, } options
-    {}
-// packet A { u8 x, }
-// " ++ [128512]%N ++ runes_of_ascii " emoji
-packet
-    // a // b
-    calculatedFrom { string charz@lengthOf( options1 ) `{ , }` , }
-")).
-Eval vm_compute in ("<<<M174>>>" ++ check (runes_of_ascii "packet  f32a
-    {//
-match
-//x
-//
-o
-    // trailing space 
-    as As { 10: //
-roots
-,// " ++ [27880; 37322]%N ++ runes_of_ascii "
-[
-255 // a // b
-, 42 ,
-    10 ,  00 ]:
-    matchKey ,
-} ,
-}
-    options { u128 = 65535 Packet = 3
-;
-}")).
-Eval vm_compute in ("<<<M4119>>>" ++ check (runes_of_ascii "packet stringy {
-    @tag(0)
-    // packet A { u8 x, }
-    repeatCount,
-    @calculatedFrom("""")
-    body falsey,
-    @lengthOf(chars)
-    repeat x_y_z `two words`,
-    repeatCount Pad,
-}")).
-Eval vm_compute in ("<<<M3470>>>" ++ check (runes_of_ascii "
-packet
-A { u8	a
+Eval vm_compute in ("<<<M3485>>>" ++ check (runes_of_ascii "packet
+    A 
+{	u8
+a
 	,
-	} packet 
-B 
-{
-u16 b	, } root packet
-P  {
-	u8
-	K1
+    }
+packet B{u16 b , } packet
+	C{u32 c , 
+}
+root  packet M{u16
 
-    ,
+    Kc , 
+u16 Kb ,  u16 Ka
 
-u8	K2 , match K1  as
-M1
-{1
-    :A
-, 
-} ,	match K2 
+,
+
+    match Kc
 as
 
-    M2	{
-1	:
-
-    B,
-	}
-    , 
-} ")).
-Eval vm_compute in ("<<<M1382>>>" ++ check (runes_of_ascii "packet  crc {
-@lengthOf(
-    /// triple
-    calculatedFrom
-    /// triple
-    ) i64_ {
-uint64
-    _x,
-} ,
-@rightPad( '0' )
-uint8x ,
-    // packet A { u8 x, }
-    } 	 ")).
-Eval vm_compute in ("<<<M247>>>" ++ check (runes_of_ascii "packet
-Pad { } packet// packet A { u8 x, }
-len // a // b
-{ string u128 , } root packet o {
-@tag( 7
-) char[] msg_type @calculatedFrom( ""// no comment""
-)
-    ,}
-")).
-Eval vm_compute in ("<<<M72>>>" ++ check (runes_of_ascii "packet
-Header//	t
-{ float32
-repeatCount @lengthOf(
-f32a
-/// triple
-// a // b
-) , }options{ As	= true; } packet Pad
-{ @rightPad
-( ' ' ) leftPad
-    , }
-")).
-Eval vm_compute in ("<<<M4135>>>" ++ check (runes_of_ascii "packet
-
-    A
-	{
-	match
-    k	as
-
-    n {  ""\
-""	:B
-,
-	[ ""\
-""
-
-    ,1]  :	C,
-    [	1  ,	2
-
-    , 3
-
-,
-
-    4
-	,	5,""\
-""]
-
-    : D 
-,  }, }")).
-Eval vm_compute in ("<<<M4221>>>" ++ check (runes_of_ascii "packet A {
-    Inner {
-        u8 x `a
-                b`,
-        Deep {
-            u8 y `a
-                        b`,
-        },
-    },
-}")).
-Eval vm_compute in ("<<<M1722>>>" ++ check (runes_of_ascii "root packet /// triple
-rootA {	i32
-MetaDataX@calculatedFrom( ""CRC32"" ) `line1
-lin@lengthOfe2` , } MetaData BodyLength {
-u8
-rootA, } // c")).
-Eval vm_compute in ("<<<M3453>>>" ++ check (runes_of_ascii "options{	LittleEndian	= true	;	}
-
-    root
-packet
-	P
-	{
-
-    u16
-
-    a ,
-u32
-    Sum
-@calculatedFrom( ""CRC32""
-	) 
-,
-
-    }
-")).
-Eval vm_compute in ("<<<M1731>>>" ++ check (runes_of_ascii "root packet /// triple
-rootA {	i32
-MetaDataX@calculatedFrom( '' ""CRC32"" ) `line1
-line2` , } MetaData BodyLength {
-u8
-rootA, } // c")).
-Eval vm_compute in ("<<<M3917>>>" ++ check (runes_of_ascii "options { BodyLength =
-    // trailing space 
-// a // b
-char[];
-lengthOf=
-    // @lengthOf(
-i8 asx =
-	7 ; rootA= 
-""a\""b""
-	;
-
-}
-")).
-Eval vm_compute in ("<<<M1677>>>" ++ check (runes_of_ascii "root packet /// triple
-rootA {	i32
-MetaDataX@calculatedFrom( ""CRC32"" ) `line1
-line2` ,  MetaData BodyLength {
-u8
-rootA, } // c")).
-Eval vm_compute in ("<<<M1735>>>" ++ check (runes_of_ascii "root packet /// triple
-rootA {	i32
-caf" ++ [233]%N ++ runes_of_ascii "_1@calculatedFrom( ""CRC32"" ) `line1
-line2` , } MetaData BodyLength {
-u8
-rootA, } // c")).
-Eval vm_compute in ("<<<M4437>>>" ++ check (runes_of_ascii "MetaData u128 {
-    char[255] _x `{ , }`,
-    string leftPad,
-    u8 A,
-    zchar[0123456789] Foo,
-    char[] As `{ , }`,
-}")).
-Eval vm_compute in ("<<<M1798>>>" ++ check (runes_of_ascii "packet
-    Pad // a // b
-{ options @calculatedFrom( ""a	b"") `u8 x,` ,
-} options{ float// " ++ [128512]%N ++ runes_of_ascii " emoji
-= f64 i64_
-=//	t
-00 }
-")).
-Eval vm_compute in ("<<<M1687>>>" ++ check (runes_of_ascii "root packet /// triple
-rootA {	i32
-MetaDataX@calculatedFrom( ""CRC32"" ) `line1
-line2` , } MetaData  {
-u8
-rootA, } // c")).
-Eval vm_compute in ("<<<M1822>>>" ++ check (runes_of_ascii "packet
-    Pad // a // b
-{ i8i8 @calculatedFrom( ""a	b"") `u8 x,` }
-, options{ float// " ++ [128512]%N ++ runes_of_ascii " emoji
-= f64 i64_
-=//	t
-00 }
-")).
-Eval vm_compute in ("<<<M4050>>>" ++ check (runes_of_ascii "packet A{
-
-    match 
-k
-
-    as n
-    {[ 1 ,	22
-,
-""c c"" ,
-
-    4 ]
+X{ 9
     :
 
-    B
+    A, 10
+	: 
+B
 
-    ,2
+,	}
 
-    :C
-} , 
-}
-")).
-Eval vm_compute in ("<<<M4335>>>" ++ check (runes_of_ascii "
-MetaData
-	lengthOf 	 // a // b
-      { i64  matchKey 
-    // " ++ [128512]%N ++ runes_of_ascii " emoji
-	// packet A { u8 x, }
-    `say ""hi""`, 
-}
-")).
-Eval vm_compute in ("<<<M3952>>>" ++ check (runes_of_ascii "MetaData
-	len{
-    i64
-    tag
-	`// not a comment`
-
-    , 
-int32 
-i8i8,
-crc i8i8`{ , }`	,  } // @lengthOf(
-")).
-Eval vm_compute in ("<<<M3644>>>" ++ check (runes_of_ascii "
-packet
-
-A
-
-    {
-    match
-k
-
+, match	Kb 
 as 
-n {
-    [ 1
-,""bb""
+Y	{2 :
+C
+    ,
+
+    1: A 
 ,
-007
+    }
 
 ,
-""d"" , 
-5
 
-, ""f""
-    ]	:B 2
-    :  C
-}, }
+    match 
+Ka
+as Z{  1
+    :
+	B
+, 
+} 
+, A, B,
+C,
+    }
+
 ")).
-Eval vm_compute in ("<<<M1864>>>" ++ check (runes_of_ascii "packet
+Eval vm_compute in ("<<<M306>>>" ++ check (runes_of_ascii "
+packet charz
+    { @lengthOf( Pad
+) match rootA as	string_ { [ 0123456789 ]
+// a // b
+//
+: repeatCount [
+    00 ,""it's""
+] : T ,
+    0 // packet A { u8 x, }
+: stringy,
+    4294967296 :
+msg_type ,/// triple
+} ,} packet lengthOf
+{
+@tag( 7 ) char[
+    255 ]
+float@calculatedFrom( ""packet"" ),  }
+")).
+Eval vm_compute in ("<<<M1511>>>" ++ check (runes_of_ascii "root packet Foo // " ++ [128512]%N ++ runes_of_ascii " emoji
+{ } options {
+    // a // b
+    tag // `tick` ""quote"" 'q'
+= //	t
+""""
+    ; u8x = zchar[0  ] }
+MetaData
+    int {10 zchar[ ]
+lengthOf	`` , i64 u8x`// not a comment` ,MetaDataX pack// `tick` ""quote"" 'q'
+`crlf
+line`
+, Logon charz `crlf
+line`
+    ,
+    // a // b
+    }
+")).
+Eval vm_compute in ("<<<M1526>>>" ++ check (runes_of_ascii "root packet Foo // " ++ [128512]%N ++ runes_of_ascii " emoji
+{ } options {
+    // a // b
+    tag // `tick` ""quote"" 'q'
+= //	t
+""""
+    ; u8x = zchar[0  ] }
+MetaData
+    int {zchar[ 10]
+``	lengthOf , i64 u8x`// not a comment` ,MetaDataX pack// `tick` ""quote"" 'q'
+`crlf
+line`
+, Logon charz `crlf
+line`
+    ,
+    // a // b
+    }
+")).
+Eval vm_compute in ("<<<M1519>>>" ++ check (runes_of_ascii "root packet Foo // " ++ [128512]%N ++ runes_of_ascii " emoji
+{ } options {
+    // a // b
+    tag // `tick` ""quote"" 'q'
+= //	t
+""""
+    ; u8x = zchar[0  ] }
+MetaData
+    int {zchar[ 10
+lengthOf	`` , i64 u8x`// not a comment` ,MetaDataX pack// `tick` ""quote"" 'q'
+`crlf
+line`
+, Logon charz `crlf
+line`
+    ,
+    // a // b
+    }
+")).
+Eval vm_compute in ("<<<M1497>>>" ++ check (runes_of_ascii "root packet Foo // " ++ [128512]%N ++ runes_of_ascii " emoji
+{ } options {
+    // a // b
+    tag // `tick` ""quote"" 'q'
+= //	t
+""""
+    ; u8x = zchar[0  ] }
+int8
+    int {zchar[ 10]
+lengthOf	`` , i64 u8x`// not a comment` ,MetaDataX pack// `tick` ""quote"" 'q'
+`crlf
+line`
+, Logon charz `crlf
+line`
+    ,
+    // a // b
+    }
+")).
+Eval vm_compute in ("<<<M935>>>" ++ check (runes_of_ascii "options { Packet = '\x00' // " ++ [27880; 37322]%N ++ runes_of_ascii "
+i64_	=3;
+falsey//
+=
+    00
+    ; x_y_z =
+0 // a // b
+; Header =// " ++ [128512]%N ++ runes_of_ascii " emoji
+""a\""b""
+}  MetaData
+    f32a {
+    } options	{ metadata = ""it's""
+    ; } options
+    {}options { calculatedFrom = int32 ;
+    len	= """ ++ [128512]%N ++ runes_of_ascii """
+_x = ""it's""BodyLength= 0123456789 }
+")).
+Eval vm_compute in ("<<<M4481>>>" ++ check (runes_of_ascii "// top
+
+packet 	 // c0a
+
+// c0b
+
+	B// c1a
+  // c1b
+	{u8 	 // c3a
+    	// c3b
+  a // c4
+		,
+    string 
+      // c6
+
+  s ,// c8
+}	// c9
+  root 
+// c10
+packet  // c11
+P	// c12
+
+{ u16 L @lengthOf(	B ),// c19
+	B 	 // c20a
+	  // c20b
+  , u8
+
+    // c22
+
+	t ,
+}  // c25
+")).
+Eval vm_compute in ("<<<M658>>>" ++ check (runes_of_ascii "options  {  matchKey =
+    007;pack
+    = false
+; // `tick` ""quote"" 'q'
+float =	int8 options1 = char[]x_y_z
+    =
+    //
+    """" ; } options
+{ Header = // " ++ [128512]%N ++ runes_of_ascii " emoji
+float64//
+;pack // `tick` ""quote"" 'q'
+= float32
+; string_
+    = char[ 42 ] Logon= 00	;}
+//	t
+")).
+Eval vm_compute in ("<<<M316>>>" ++ check (runes_of_ascii "packet  crc {calculatedFrom
+    {string_ u
+,
+rootA
+    calculatedFrom , } // packet A { u8 x, }
+,
+    @lengthOf( len
+    )match //x
+roots
+    /// triple
+    as x{""// no comment""
+:
+    msg_type
+    ,
+7 : calculatedFrom ,} ,} packet zchar
+{
+    }
+
+")).
+Eval vm_compute in ("<<<M626>>>" ++ check (runes_of_ascii "packet T {u8 Packet, @leftPad ( ' ' // packet A { u8 x, }
+)
+    // " ++ [128512]%N ++ runes_of_ascii " emoji
+    match o as BodyLength
+    // `tick` ""quote"" 'q'
+    {
+    [ ""it's""
+]: charz
+0 :
+T
+,
+""`tick`"" : stringy }  , } packet stringy {	_x leftPad `say ""hi""`
+    , }
+")).
+Eval vm_compute in ("<<<M4486>>>" ++ check (runes_of_ascii "MetaData packetx {
+    packetx i64_ `say ""hi""`,
+}
+
+options {
+}
+
+packet string_ {
+    @lengthOf(repeatCount)
+    len {
+        zchar[10] u128,
+        f32 falsey `say ""hi""`,
+        uint16 f32a `crlf
+        line`,
+    },
+}
+// " ++ [27880; 37322]%N)).
+Eval vm_compute in ("<<<M1380>>>" ++ check (runes_of_ascii "
+packet // `tick` ""quote"" 'q'
+Logon {
+@lengthOf( a1
+)match
+    x_y_z as asx {	[
+/// triple
+//x
+""packet"" //
+, """ ++ [128512]%N ++ runes_of_ascii """ // packet A { u8 x, }
+,// `tick` ""quote"" 'q'
+""packet"" , 4294967296 ,""" ++ [28040; 24687]%N ++ runes_of_ascii """ ] : A ,
+3 : Packet ,
+//
+//	t
+},}")).
+Eval vm_compute in ("<<<M3742>>>" ++ check (runes_of_ascii "MetaData Packet {
+}
+
+packet asx {
+    @lengthOf(asx)
+    falsey `crlf
+    line`,
+}
+
+packet x {
+    uint32 rootA,
+    u32 options1 `say ""hi""`,
+    @tag(7)
+    // packet A { ''u8 x, }
+    msg_type @lengthOf(stringy),
+}")).
+Eval vm_compute in ("<<<M2381>>>" ++ check (runes_of_ascii "MetaData Packet { }packet	asx  { @lengthOf( asx) falsey`crlf
+line`
+,
+    }
+    packet x	{uint32// @lengthOf(
+rootA	,u32 options1 `say ""hi""` , @tag( 7
+    )// packet A { u8 x, }
+""msg_type @lengthOf(
+stringy	)	, }
+
+")).
+Eval vm_compute in ("<<<M2322>>>" ++ check (runes_of_ascii "MetaData Packet { }packet	asx  { @lengthOf( asx) falsey`crlf
+line`
+,
+    }
+    packet x	{uint32// @lengthOf(
+rootA	,u32 options1 , `say ""hi""` @tag( 7
+    )// packet A { u8 x, }
+msg_type @lengthOf(
+stringy	)	, }
+
+")).
+Eval vm_compute in ("<<<M2395>>>" ++ check (runes_of_ascii "MetaData Packet { }packet	" ++ [21517; 23383]%N ++ runes_of_ascii "  { @lengthOf( asx) falsey`crlf
+line`
+,
+    }
+    packet x	{uint32// @lengthOf(
+rootA	,u32 options1 `say ""hi""` , @tag( 7
+    )// packet A { u8 x, }
+msg_type @lengthOf(
+stringy	)	, }
+
+")).
+Eval vm_compute in ("<<<M2318>>>" ++ check (runes_of_ascii "MetaData Packet { }packet	asx  { @lengthOf( asx) falsey`crlf
+line`
+,
+    }
+    packet x	{uint32// @lengthOf(
+rootA	,u32 """" `say ""hi""` , @tag( 7
+    )// packet A { u8 x, }
+msg_type @lengthOf(
+stringy	)	, }
+
+")).
+Eval vm_compute in ("<<<M728>>>" ++ check (runes_of_ascii "// `tick` ""quote"" 'q'
+options { }	options {Foo =// trailing space 
+'\x00' ; stringy = 65535 ; u= '\x00' Foo = true
+// packet A { u8 x, }
+//
+Foo = // " ++ [27880; 37322]%N ++ runes_of_ascii "
+""abc"" ; } packet MetaDataX
+    { float32 asx , } 	 ")).
+Eval vm_compute in ("<<<M3595>>>" ++ check (runes_of_ascii "options {
+    calculatedFrom
+
+    = 
+      // packet A { u8 x, }
+
+	""" ++ [28040; 24687]%N ++ runes_of_ascii """
+
+    ;
+
+    u=  false	BodyLength
+    = 
+
+    // `tick` ""quote"" 'q'
+    	65535
+; msg_type =
+0
+lengthOf= true;
+    } ")).
+Eval vm_compute in ("<<<M1558>>>" ++ check (runes_of_ascii "root packet Foo // " ++ [128512]%N ++ runes_of_ascii " emoji
+{ } options {
+    // a // b
+    tag // `tick` ""quote"" 'q'
+= //	t
+""""
+    ; u8x = zchar[0  ] }
+MetaData
+    int {zchar[ 10]
+lengthOf	`` , i64 u8x`// not a comment`")).
+Eval vm_compute in ("<<<M1012>>>" ++ check (runes_of_ascii "packet  int
+    { match	roots
+//	t
+// @lengthOf(
+as//	t
+u8x {7 : packetx,
+0
+: As  ""packet"" :
+    // a // b
+    a1
+// " ++ [27880; 37322]%N ++ runes_of_ascii "
+//x
+, ""packet""
+    :
+    float }	,Z9_ @lengthOf( u128
+)
+, }")).
+Eval vm_compute in ("<<<M743>>>" ++ check (runes_of_ascii "MetaData roots { } MetaData
+stringy {
+Logon leftPad// " ++ [27880; 37322]%N ++ runes_of_ascii "
+`crlf
+line`
+,	char[] metadata`{ , }`
+,
+falsey  pack `" ++ [233]%N ++ runes_of_ascii "`,
+    i8 repeatCount// " ++ [27880; 37322]%N ++ runes_of_ascii "
+,} options{
+matchKey =' ' }
+
+")).
+Eval vm_compute in ("<<<M640>>>" ++ check (runes_of_ascii "root  packet calculatedFrom {@rightPad	( )
+    match pack
+as
+repeatCount //
+{ 007 : pack , } ,	}
+options{
+As =	00
+    //	t
+    T
+    = '\x00' ;	pack =
+    00 } // c")).
+Eval vm_compute in ("<<<M115>>>" ++ check (runes_of_ascii "root packet T{ }	MetaData	msg_type { i64_ //x
+i64_,  } root packet
+    // packet A { u8 x, }
+    x_y_z { }  MetaData	crc { o
+zchar`line1
+line2`
+,} packet
+x{ }")).
+Eval vm_compute in ("<<<M3985>>>" ++ check (runes_of_ascii "packet
+A	{ match
+
+k as	n { 
+[
+	""a""  ,  ""bb""
+    ,
+	007	,
+    ""d"" ,
+	""e""  ,
+	66 ,  ""g""
+,  ""h""
+
+,
+    9 ,""j""
+
+    ,
+""k""	,12
+	]
+
+    :	B
+2
+	: C },	} ")).
+Eval vm_compute in ("<<<M4257>>>" ++ check (runes_of_ascii "  options
+
+    { matchKey  = ' ' tag=
+	'\x00'  ; 
+metadata 
+    // `tick` ""quote"" 'q'
+  // @lengthOf(
+  	=string
+;
+	charz
+    =
+65535
+
+; 
+}
+
+")).
+Eval vm_compute in ("<<<M3441>>>" ++ check (runes_of_ascii "
+packet
+B{
+    u8  a
+
+    ,} root
+    packet
+
+P {  u8
+K ,
+
+    match  K
+    as
+Body {
+
+    1
+:
+B,}
+, 
+u16
+	L @lengthOf( 
+Body ) ,
+} ")).
+Eval vm_compute in ("<<<M3709>>>" ++ check (runes_of_ascii "packet A {
+    match k as n {
+        [
+            1, ""bb"", 007, ""d"", 5,
+            ""f"", 7, ""h""
+        ] : B,
+        2 : C,
+    },
+}")).
+Eval vm_compute in ("<<<M652>>>" ++ check (runes_of_ascii "packet metadata {@calculatedFrom(""" ++ [233]%N ++ runes_of_ascii "t" ++ [233]%N ++ runes_of_ascii """
+// `tick` ""quote"" 'q'
+// " ++ [128512]%N ++ runes_of_ascii " emoji
+) @calculatedFrom(
+""1""
+)
+    repeat
+char
+i64_
+`a\` ,
+    }
+")).
+Eval vm_compute in ("<<<M1733>>>" ++ check (runes_of_ascii "root packet /// triple
+rootA {	i32
+MetaDataX@calculatedFrom( ""CRC32"" ) `line1
+line2` , } MetaData BodyLength {
+u8
+rootA? , } // c")).
+Eval vm_compute in ("<<<M1689>>>" ++ check (runes_of_ascii "root packet /// triple
+rootA {	i32
+MetaDataX@calculatedFrom( ""CRC32"" ) `line1
+line2` , } MetaData { BodyLength
+u8
+rootA, } // c")).
+Eval vm_compute in ("<<<M287>>>" ++ check (runes_of_ascii "
+MetaData Pad { int64 roots ,body u128
+    //x
+    , float64 x // trailing space 
+, int32
+    chars , A options1 `
+`,
+    }
+")).
+Eval vm_compute in ("<<<M515>>>" ++ check (runes_of_ascii "  MetaData//
+Foo
+    // `tick` ""quote"" 'q'
+    {char[ 65535
+    ] crc `" ++ [233]%N ++ runes_of_ascii "`	, repeatCount lengthOf
+,roots msg_type `it's` , }")).
+Eval vm_compute in ("<<<M1786>>>" ++ check (runes_of_ascii "packet
+    Pad Pad // a // b
+{ i8i8 @calculatedFrom( ""a	b"") `u8 x,` ,
+} options{ float// " ++ [128512]%N ++ runes_of_ascii " emoji
+= f64 i64_
+=//	t
+00 }
+")).
+Eval vm_compute in ("<<<M1811>>>" ++ check (runes_of_ascii "packet
+    Pad // a // b
+{ i8i8 @calculatedFrom( ""a	b"") ) `u8 x,` ,
+} options{ float// " ++ [128512]%N ++ runes_of_ascii " emoji
+= f64 i64_
+=//	t
+00 }
+")).
+Eval vm_compute in ("<<<M3055>>>" ++ check (runes_of_ascii "packet A {
+    match k as n {
+        ""x\
+y"" : B,
+        [""x\
+y"", 1] : C,
+        [1,2,3,4,5,""x\
+y""] : D,
+    },
+}")).
+Eval vm_compute in ("<<<M1867>>>" ++ check (runes_of_ascii "packet
     Pad // a // b
 { i8i8 @calculatedFrom( ""a	b"") `u8 x,` ,
 } options{ float// " ++ [128512]%N ++ runes_of_ascii " emoji
-= f64 i64_")).
-Eval vm_compute in ("<<<M3353>>>" ++ check (runes_of_ascii "packet calculatedFrom { @tag( 4294967296 ) u msg_type // c
-, char[ 3 ] crc @lengthOf( len ) `u8 x,` , }")).
-Eval vm_compute in ("<<<M2998>>>" ++ check (runes_of_ascii "packet A {
-  match k as n {
-    [1, 22, ""c c"", 4, 5, ""f"", 7, 8, ""i"", 10, 11, ""l""] : B
-    2 : C
-  },
-}")).
-Eval vm_compute in ("<<<M1691>>>" ++ check (runes_of_ascii "root packet /// triple
-rootA {	i32
-MetaDataX@calculatedFrom( ""CRC32"" ) `line1
-line2` , } MetaData")).
-Eval vm_compute in ("<<<M6>>>" ++ check (runes_of_ascii "MetaData metadata{
-leftPad i64_ ,
-    // " ++ [128512]%N ++ runes_of_ascii " emoji
-    u8
-    stringy `
-` , char[] trueish , }
+= f64 i64_
+=//	t
+} 00
 ")).
-Eval vm_compute in ("<<<M3235>>>" ++ check (runes_of_ascii "packet Logon { @tag( 42 ) @rightPad ( ' ' )
-// c
-@leftPad ( ) repeat trueish { string T , } , }")).
-Eval vm_compute in ("<<<M2007>>>" ++ check (runes_of_ascii "root
-packet crc
-    { f32a @calculatedFrom( """ ++ [233]%N ++ runes_of_ascii "t" ++ [233]%N ++ runes_of_ascii """ )
-    `say ""hi""`, lengthOf lengthOf `` ,  }")).
-Eval vm_compute in ("<<<M2927>>>" ++ check (runes_of_ascii "packet A {
-  match k as n {
-    [""a"", ""bb"", ""c c"", ""d"", ""e"", ""f"", ""g""] : B
-    2 : C
-  },
-}")).
-Eval vm_compute in ("<<<M3897>>>" ++ check (runes_of_ascii "options {
-    tag = ""// no comment""/// triple
-    calculatedFrom = 10
-    Packet = '0';
-}")).
-Eval vm_compute in ("<<<M1004>>>" ++ check (runes_of_ascii "packet i64_	{
-} MetaData metadata
-    {int64 string_	`doc`  ,
-}
-    packet T{
-    }
-")).
-Eval vm_compute in ("<<<M2003>>>" ++ check (runes_of_ascii "root
-packet crc
-    { f32a @calculatedFrom( """ ++ [233]%N ++ runes_of_ascii "t" ++ [233]%N ++ runes_of_ascii """ )
-    `say ""hi""`lengthOf , `` ,  }")).
-Eval vm_compute in ("<<<M1849>>>" ++ check (runes_of_ascii "packet
+Eval vm_compute in ("<<<M1865>>>" ++ check (runes_of_ascii "packet
     Pad // a // b
 { i8i8 @calculatedFrom( ""a	b"") `u8 x,` ,
-} options{ float")).
-Eval vm_compute in ("<<<M3294>>>" ++ check (runes_of_ascii "packet // c
-o { @tag( 42 ) repeat x { char[ 0123456789 ] i64_ , } , } options { }")).
-Eval vm_compute in ("<<<M3326>>>" ++ check (runes_of_ascii "packet o { @tag( 42 ) repeat x { char[ 0123456789 ] i64_ , } , } // c
-options { }")).
-Eval vm_compute in ("<<<M1962>>>" ++ check (runes_of_ascii "root
- crc
-    { f32a @calculatedFrom( """ ++ [233]%N ++ runes_of_ascii "t" ++ [233]%N ++ runes_of_ascii """ )
-    `say ""hi""`, lengthOf `` ,  }")).
-Eval vm_compute in ("<<<M989>>>" ++ check (runes_of_ascii "packet falsey {
-} options{
-}
-    options{
-body
-= '0' } MetaData o
-{
-    }
+} options{ float// " ++ [128512]%N ++ runes_of_ascii " emoji
+= f64 i64_
+=//	t
+ }
 ")).
-Eval vm_compute in ("<<<M2896>>>" ++ check (runes_of_ascii "packet A {
+Eval vm_compute in ("<<<M1784>>>" ++ check (runes_of_ascii "=
+    Pad // a // b
+{ i8i8 @calculatedFrom( ""a	b"") `u8 x,` ,
+} options{ float// " ++ [128512]%N ++ runes_of_ascii " emoji
+= f64 i64_
+=//	t
+00 }
+")).
+Eval vm_compute in ("<<<M3803>>>" ++ check (runes_of_ascii "options {
+    Logon = 007
+    leftPad = true;
+    repeatCount = 0
+    // a // b
+    u = i32;
+    f32a = '0';
+}")).
+Eval vm_compute in ("<<<M1478>>>" ++ check (runes_of_ascii "root packet Foo // " ++ [128512]%N ++ runes_of_ascii " emoji
+{ } options {
+    // a // b
+    tag // `tick` ""quote"" 'q'
+= //	t
+""""
+    ; u8x =")).
+Eval vm_compute in ("<<<M4153>>>" ++ check (runes_of_ascii "packet o {
+    @tag(42)
+    repeat x {
+        char[0123456789] i64_,
+        // c
+    },
+}
+
+options {
+}")).
+Eval vm_compute in ("<<<M3360>>>" ++ check (runes_of_ascii "packet calculatedFrom { @tag( 4294967296 ) u msg_type , char[ 3
+// c
+] crc @lengthOf( len ) `u8 x,` , }")).
+Eval vm_compute in ("<<<M2953>>>" ++ check (runes_of_ascii "packet A {
   match k as n {
-    [""a"", ""bb"", 007, ""d""] : B
+    [""a"", ""bb"", ""c c"", ""d"", ""e"", ""f"", ""g"", ""h"", ""i""] : B
     2 : C
   },
 }")).
-Eval vm_compute in ("<<<M372>>>" ++ check (runes_of_ascii "
-packet Z9_ { } // a // b
-root
-    packet roots{
-    /// triple
-    }")).
-Eval vm_compute in ("<<<M3398>>>" ++ check (runes_of_ascii "MetaData _x
-// c
-{ zchar[ 4294967296 ] lengthOf `// not a comment` , }")).
-Eval vm_compute in ("<<<M4062>>>" ++ check (runes_of_ascii "
-
-  packet	A{B
-    b  `
-x`
-    ,B  `
-x`
-    , repeat
-
-B
-bs
-`
-x`	, }
-")).
-Eval vm_compute in ("<<<M2196>>>" ++ check (runes_of_ascii "root
-    // `t" ++ [65279]%N ++ runes_of_ascii "ick` ""quote"" 'q'
-    packet As { trueish Packet , }
-")).
-Eval vm_compute in ("<<<M3027>>>" ++ check (runes_of_ascii "packet A {
-    B b `a
-
-b`,
-    B `a
-
-b`,
-    repeat B bs `a
-
-b`,
+Eval vm_compute in ("<<<M3609>>>" ++ check (runes_of_ascii "packet metadata {
+    @calculatedFrom(""" ++ [233]%N ++ runes_of_ascii "t" ++ [233]%N ++ runes_of_ascii """)
+    @calculatedFrom(""1"")
+    repeat char i64_ `a\`,
 }")).
-Eval vm_compute in ("<<<M4005>>>" ++ check (runes_of_ascii "packet  As { 
-        //x
-
-	// " ++ [128512]%N ++ runes_of_ascii " emoji
-  	repeat	char
-zchar
-
-,	}")).
-Eval vm_compute in ("<<<M671>>>" ++ check (runes_of_ascii "options
-    {i64_ = string tag =
-    float32 Pad  = ""{,}"" ; }")).
-Eval vm_compute in ("<<<M133>>>" ++ check (runes_of_ascii "packet string_ // `tick` ""quote"" 'q'
-{ u
-//
-// " ++ [128512]%N ++ runes_of_ascii " emoji
-, }
+Eval vm_compute in ("<<<M176>>>" ++ check (runes_of_ascii "MetaData
+x_y_z
+{
+Logon
+    repeatCount `say ""hi""`,  crc
+    x_y_z
+,
+    char[	10 ] Foo  ,
+}
 ")).
+Eval vm_compute in ("<<<M3236>>>" ++ check (runes_of_ascii "packet Logon { @tag( 42 ) @rightPad ( ' ' ) @leftPad // c
+( ) repeat trueish { string T , } , }")).
+Eval vm_compute in ("<<<M2947>>>" ++ check (runes_of_ascii "packet A {
+  match k as n {
+    [""a"", ""bb"", 007, ""d"", ""e"", 66, ""g"", ""h""] : B,
+    2 : C
+  },
+}")).
+Eval vm_compute in ("<<<M521>>>" ++ check (runes_of_ascii "options { i8i8 = ""// no comment"" ; o
+=
+    '0'
+    Header
+='0' ; a1 =
+    zchar[
+    1
+] }
+")).
+Eval vm_compute in ("<<<M2941>>>" ++ check (runes_of_ascii "packet A {
+  match k as n {
+    [1, ""bb"", 007, ""d"", 5, ""f"", 7, ""h""] : B,
+    2 : C
+  },
+}")).
+Eval vm_compute in ("<<<M2913>>>" ++ check (runes_of_ascii "packet A {
+  match k as n {
+    [""a"", ""bb"", ""c c"", ""d"", ""e"", ""f""] : B,
+    2 : C
+  },
+}")).
+Eval vm_compute in ("<<<M3972>>>" ++ check (runes_of_ascii "options {
+    a = char[3];
+    b = zchar[0]
+    c = char[]
+    d = string
+    e = u8
+}")).
+Eval vm_compute in ("<<<M1971>>>" ++ check (runes_of_ascii "root
+packet crc
+     f32a @calculatedFrom( """ ++ [233]%N ++ runes_of_ascii "t" ++ [233]%N ++ runes_of_ascii """ )
+    `say ""hi""`, lengthOf `` ,  }")).
+Eval vm_compute in ("<<<M1182>>>" ++ check (runes_of_ascii "options {
+// a // b
+//
+Z9_
+= char[
+1
+]
+Foo = '0'
+; // `tick` ""quote"" 'q'
+} //	t")).
+Eval vm_compute in ("<<<M3303>>>" ++ check (runes_of_ascii "packet o { @tag( 42
+// c
+) repeat x { char[ 0123456789 ] i64_ , } , } options { }")).
+Eval vm_compute in ("<<<M4009>>>" ++ check (runes_of_ascii "packet
+
+    len{ 
+Logon  @calculatedFrom( 	 // a // b
+    ""a\""b""
+
+    )  , }
+")).
+Eval vm_compute in ("<<<M3464>>>" ++ check (runes_of_ascii "root
+
+    packet P  { 
+repeat
+string
+
+    ss
+
+    ,	repeat 
+u16	ns
+
+,}
+")).
+Eval vm_compute in ("<<<M677>>>" ++ check (runes_of_ascii "options {
+leftPad = string u128  =
+    ""abc""
+uint8x = """ ++ [128512]%N ++ runes_of_ascii """Z9_ = 0123456789}
+")).
+Eval vm_compute in ("<<<M2757>>>" ++ check (runes_of_ascii "char @lengthOf( @lengthOf( false string = ( '0' i32 : float32 i64 u64 true")).
+Eval vm_compute in ("<<<M3184>>>" ++ check (runes_of_ascii "packet A {
+    match k as n {
+        1 : B // c
+        , // d
+    },
+}")).
+Eval vm_compute in ("<<<M3395>>>" ++ check (runes_of_ascii "MetaData // c
+_x { zchar[ 4294967296 ] lengthOf `// not a comment` , }")).
+Eval vm_compute in ("<<<M2885>>>" ++ check (runes_of_ascii "packet A {
+  match k as n {
+    [1, 22, 007, 4] : B,
+    2 : C
+  },
+}")).
+Eval vm_compute in ("<<<M15>>>" ++ check (runes_of_ascii "options
+    { Z9_
+    =
+""" ++ [233]%N ++ runes_of_ascii "t" ++ [233]%N ++ runes_of_ascii """; rootA = string; } // trailing space ")).
+Eval vm_compute in ("<<<M2872>>>" ++ check (runes_of_ascii "packet A {
+  match k as n {
+    [1, 22, 007] : B,
+    2 : C
+  },
+}")).
+Eval vm_compute in ("<<<M2866>>>" ++ check (runes_of_ascii "packet A {
+  match k as n {
+    [""a"", ""bb""] : B
+    2 : C
+  },
+}")).
+Eval vm_compute in ("<<<M112>>>" ++ check (runes_of_ascii "options { calculatedFrom  =// `tick` ""quote"" 'q'
+""packet""; }
+")).
+Eval vm_compute in ("<<<M618>>>" ++ check (runes_of_ascii "options { crc =true ;lengthOf
+= // a // b
+char[	0 ] } //	t")).
 Eval vm_compute in ("<<<M1060>>>" ++ check (runes_of_ascii "  packet
 //	t
 //
 packetx{ repeat zchar[
     007 ]	Foo,
 }")).
-Eval vm_compute in ("<<<M1954>>>" ++ check (runes_of_ascii "
+Eval vm_compute in ("<<<M1951>>>" ++ check (runes_of_ascii "
 packet	As { @calculatedFrom(//x
-""{,}""	)le""ngthOf , } 	 ")).
-Eval vm_compute in ("<<<M1935>>>" ++ check (runes_of_ascii "
-packet	As { @calculatedFrom(//x
-""{,}""	)lengthOf ,  	 ")).
-Eval vm_compute in ("<<<M1081>>>" ++ check (runes_of_ascii "options {i64_ =""x y"" _x =  int32 i64_ = '0' } // " ++ [27880; 37322]%N)).
-Eval vm_compute in ("<<<M406>>>" ++ check (runes_of_ascii "options
-    {} packet
-_x
+""{,}""	)lengthOf , } 	 " ++ [8232]%N)).
+Eval vm_compute in ("<<<M3155>>>" ++ check (runes_of_ascii "packet A { match k as n { 1 : B // a // b 2 : C }, }")).
+Eval vm_compute in ("<<<M2401>>>" ++ check (runes_of_ascii "MetaData A
 {
-}packet
-matchKey { }
-")).
-Eval vm_compute in ("<<<M2422>>>" ++ check (runes_of_ascii "MetaData A
 i64
-{
-chars	, } // `tick` ""quote"" 'q'")).
-Eval vm_compute in ("<<<M342>>>" ++ check (runes_of_ascii "packet o{ char[0123456789 ] asx `doc`
-    ,	}
+@x chars	, } // `tick` ""quote"" 'q'")).
+Eval vm_compute in ("<<<M547>>>" ++ check (runes_of_ascii "
+options {
+    tag
+=i32
+    zchar =
+    ""\n""; }
 ")).
-Eval vm_compute in ("<<<M2647>>>" ++ check (runes_of_ascii "MetaData M { u8 x `d` , y z `e`, char[3] w, }")).
-Eval vm_compute in ("<<<M2559>>>" ++ check (runes_of_ascii "packet A { repeat match k as n { 1 : B }, }")).
-Eval vm_compute in ("<<<M551>>>" ++ check (runes_of_ascii "options {i64_
-    = 10}packet options1 {}")).
-Eval vm_compute in ("<<<M2106>>>" ++ check (runes_of_ascii "MetaData x x
+Eval vm_compute in ("<<<M3418>>>" ++ check (runes_of_ascii "root packet P {
+    repeat char cs,
+    u8 x,
+}
+")).
+Eval vm_compute in ("<<<M3956>>>" ++ check (runes_of_ascii "  packet
+
+    asx 
+{
+    u64 
+MetaDataX  , } ")).
+Eval vm_compute in ("<<<M2139>>>" ++ check (runes_of_ascii "'\x01' MetaData x
 {// " ++ [128512]%N ++ runes_of_ascii " emoji
 i16 stringy , }")).
-Eval vm_compute in ("<<<M3204>>>" ++ check (runes_of_ascii "MetaData zchar { zchar[ 3 ] Pad , // c
-}")).
+Eval vm_compute in ("<<<M754>>>" ++ check (runes_of_ascii "MetaData
+    /// triple
+    BodyLength
+{}
+")).
+Eval vm_compute in ("<<<M4190>>>" ++ check (runes_of_ascii "
+packet
+A
+    { u8 x
+
+`d" ++ [6158]%N ++ runes_of_ascii "`
+, // c" ++ [6158]%N ++ runes_of_ascii "
+    }")).
+Eval vm_compute in ("<<<M1929>>>" ++ check (runes_of_ascii "
+packet	As { @calculatedFrom(//x
+""{,}""	)")).
+Eval vm_compute in ("<<<M3203>>>" ++ check (runes_of_ascii "MetaData zchar { zchar[ 3 ] Pad
+// c
+, }")).
 Eval vm_compute in ("<<<M1166>>>" ++ check (runes_of_ascii "// " ++ [128512]%N ++ runes_of_ascii " emoji
 options { u128 = '\x00'
 ; }")).
-Eval vm_compute in ("<<<M2124>>>" ++ check (runes_of_ascii "MetaData x
-{// " ++ [128512]%N ++ runes_of_ascii " emoji
-i16 stringy  }")).
-Eval vm_compute in ("<<<M3712>>>" ++ check (runes_of_ascii "MetaData zchar {
-    zchar[3] Pad,
-}")).
-Eval vm_compute in ("<<<M2772>>>" ++ check (runes_of_ascii "uint16 char uint16 ' ' root string")).
-Eval vm_compute in ("<<<M2654>>>" ++ check (runes_of_ascii "options { a = 1; b = 2 c = 3;; }")).
-Eval vm_compute in ("<<<M268>>>" ++ check (runes_of_ascii "options { // " ++ [27880; 37322]%N ++ runes_of_ascii "
-T
-=int64  }
+Eval vm_compute in ("<<<M1362>>>" ++ check (runes_of_ascii "// " ++ [27880; 37322]%N ++ runes_of_ascii "
+options {
+crc
+=false
+    ; }
 ")).
-Eval vm_compute in ("<<<M3143>>>" ++ check (runes_of_ascii "packet A {
- u8 x `d" ++ [6158]%N ++ runes_of_ascii "`, // c" ++ [6158]%N ++ runes_of_ascii "
+Eval vm_compute in ("<<<M3166>>>" ++ check (runes_of_ascii "options { a = 1; // a
+ b = 2 // b
+ }")).
+Eval vm_compute in ("<<<M3031>>>" ++ check (runes_of_ascii "root packet A {
+    u8 x `a
+
+b`,
 }")).
-Eval vm_compute in ("<<<M2587>>>" ++ check (runes_of_ascii "packet A { x @lengthOf(3), }")).
-Eval vm_compute in ("<<<M3038>>>" ++ check (runes_of_ascii "packet A {
-    u8 x `
-x`,
+Eval vm_compute in ("<<<M3037>>>" ++ check (runes_of_ascii "root packet A {
+    u8 x `x
+`,
 }")).
-Eval vm_compute in ("<<<M4324>>>" ++ check (runes_of_ascii "  packet	lengthOf{}	// c
+Eval vm_compute in ("<<<M1438>>>" ++ check (runes_of_ascii "root packet Foo // " ++ [128512]%N ++ runes_of_ascii " emoji
+{ }")).
+Eval vm_compute in ("<<<M657>>>" ++ check (runes_of_ascii "
+MetaData a1
+{ // " ++ [128512]%N ++ runes_of_ascii " emoji
+}")).
+Eval vm_compute in ("<<<M2822>>>" ++ check ([65533; 65533; 65533; 65533]%N ++ runes_of_ascii "
+" ++ [65533; 4; 4]%N ++ runes_of_ascii "#" ++ [65533]%N ++ runes_of_ascii "OXy" ++ [65533; 65533; 65533; 29; 65533]%N ++ runes_of_ascii "%9 I*" ++ [65533; 65533; 597; 65533; 65533]%N)).
+Eval vm_compute in ("<<<M4339>>>" ++ check (runes_of_ascii "
+packet A
+{
+    } 	 // c" ++ [8233]%N ++ runes_of_ascii "
 ")).
-Eval vm_compute in ("<<<M550>>>" ++ check (runes_of_ascii "//	t
-packet
-f32a
-    { }")).
-Eval vm_compute in ("<<<M3380>>>" ++ check (runes_of_ascii "// c
-packet lengthOf { }")).
-Eval vm_compute in ("<<<M319>>>" ++ check (runes_of_ascii "MetaData
-    i64_ { }
+Eval vm_compute in ("<<<M880>>>" ++ check (runes_of_ascii "// " ++ [128512]%N ++ runes_of_ascii " emoji
+packet f32a{}
 ")).
-Eval vm_compute in ("<<<M1874>>>" ++ check (runes_of_ascii "packet
-    Pad // a /")).
-Eval vm_compute in ("<<<M2664>>>" ++ check (runes_of_ascii "options { a = [1]; }")).
-Eval vm_compute in ("<<<M3146>>>" ++ check (runes_of_ascii "packet A {
+Eval vm_compute in ("<<<M807>>>" ++ check (runes_of_ascii "  packet stringy {
+    }")).
+Eval vm_compute in ("<<<M3384>>>" ++ check (runes_of_ascii "packet lengthOf // c
+{ }")).
+Eval vm_compute in ("<<<M23>>>" ++ check (runes_of_ascii "packet BodyLength { }
+")).
+Eval vm_compute in ("<<<M2061>>>" ++ check (runes_of_ascii "MetaData A {  pack, }")).
+Eval vm_compute in ("<<<M2697>>>" ++ check (runes_of_ascii "options """ ++ [128512]%N ++ runes_of_ascii """ `" ++ [28040; 24687; 31867; 22411]%N ++ runes_of_ascii "` }")).
+Eval vm_compute in ("<<<M3579>>>" ++ check (runes_of_ascii "packet matchKey {
+}")).
+Eval vm_compute in ("<<<M3071>>>" ++ check (runes_of_ascii "packet A {
 }
-// c x")).
-Eval vm_compute in ("<<<M3081>>>" ++ check (runes_of_ascii "packet A {
+// c" ++ [160]%N)).
+Eval vm_compute in ("<<<M3824>>>" ++ check (runes_of_ascii "  packet i8i8 {
 }
-// c" ++ [5760]%N)).
-Eval vm_compute in ("<<<M1148>>>" ++ check (runes_of_ascii "packet f32a
-{ }
+")).
+Eval vm_compute in ("<<<M3114>>>" ++ check (runes_of_ascii "packet A {
+}// c" ++ [11]%N)).
+Eval vm_compute in ("<<<M2025>>>" ++ check (runes_of_ascii "root
+packet cr")).
+Eval vm_compute in ("<<<M2746>>>" ++ check (runes_of_ascii "uint16 = int8")).
+Eval vm_compute in ("<<<M2060>>>" ++ check (runes_of_ascii "MetaData A")).
+Eval vm_compute in ("<<<M323>>>" ++ check (runes_of_ascii "// c
+
 
 ")).
-Eval vm_compute in ("<<<M3134>>>" ++ check (runes_of_ascii "packet A {
-}// c" ++ [65279]%N)).
-Eval vm_compute in ("<<<M2224>>>" ++ check (runes_of_ascii "MetaData Packet")).
-Eval vm_compute in ("<<<M2707>>>" ++ check ([65533; 65533; 65533; 65533; 65533; 18; 7; 65533]%N ++ runes_of_ascii "p" ++ [65533]%N ++ runes_of_ascii "e~" ++ [65533]%N)).
-Eval vm_compute in ("<<<M1909>>>" ++ check (runes_of_ascii "
-packet	As")).
-Eval vm_compute in ("<<<M2635>>>" ++ check (runes_of_ascii "packet A")).
-Eval vm_compute in ("<<<M2440>>>" ++ check (runes_of_ascii "uint88")).
-Eval vm_compute in ("<<<M2471>>>" ++ check (runes_of_ascii "'\x0'")).
-Eval vm_compute in ("<<<M665>>>" ++ check (runes_of_ascii "
-//
-")).
-Eval vm_compute in ("<<<M2452>>>" ++ check (runes_of_ascii "asx")).
-Eval vm_compute in ("<<<M2438>>>" ++ check (runes_of_ascii "u8")).
-Eval vm_compute in ("<<<M2554>>>" ++ check ([21517]%N)).
+Eval vm_compute in ("<<<M2510>>>" ++ check (runes_of_ascii """a\
+b""")).
+Eval vm_compute in ("<<<M2701>>>" ++ check (runes_of_ascii "{ : =")).
+Eval vm_compute in ("<<<M2467>>>" ++ check (runes_of_ascii "ROOT")).
+Eval vm_compute in ("<<<M2506>>>" ++ check (runes_of_ascii """a\")).
+Eval vm_compute in ("<<<M2505>>>" ++ check (runes_of_ascii """a")).
+Eval vm_compute in ("<<<M2685>>>" ++ check ([0]%N)).
